@@ -16,7 +16,7 @@ use vek::vec::ShuffleMask4;
 use vx::fr::Deg;
 use vx::lattice::*;
 use vx::matx::*;
-use vx::term::Sym;
+use vx::term::{Node, Sym, Term};
 use vx::*;
 
 const ZERO: Sym = Sym(0);
@@ -30,6 +30,17 @@ fn chk<T: PartialEq + Debug>(s: &Section, site: &str, class: &str, input: &dyn F
         Some(g) if &g != want => { s.violation_w(site, class, json!({"input": input(), "got": jd(&g), "want": jd(want)}), weight); false }
         _ => true,
     }
+}
+
+/// `chk` for the opaque-symbol (routing) sections.  `Sym` has no arithmetic: when the real code adds or
+/// multiplies elements the call is aborted as *unmodelled* and `s.call` yields `None`, which `chk` lets
+/// pass.  A conversion / swizzle / shuffle must only move elements, so in these sections a missing result
+/// is itself a violation (class "not-pure-routing").
+fn chk_sym<T: PartialEq + Debug>(s: &Section, site: &str, class: &str, input: &dyn Fn() -> Value, got: Option<T>, want: &T, nontrivial: bool, weight: u64) -> bool {
+    if got.is_none() {
+        s.violation_w(site, "not-pure-routing", json!({"input": input(), "want": jd(want), "note": "the call did not return on opaque symbols: it performed arithmetic on the elements (or panicked); it must only move them"}), weight);
+    }
+    chk(s, site, class, input, got, want, nontrivial, weight)
 }
 
 // =================================================================================================
@@ -98,7 +109,7 @@ fn check_route(s: &Section, used: &mut BTreeMap<String, u32>, site: &str, src: &
         (Pad::FullAlpha, _) => "grow-appends-full-alpha",
     };
     s.class(class);
-    chk(s, site, "wrong-routing", &|| json!({"src": jd(&src), "scalar": jd(&scalar)}), got, &want, true, 0);
+    chk_sym(s, site, "wrong-routing", &|| json!({"src": jd(&src), "scalar": jd(&scalar)}), got, &want, true, 0);
     if s.wants_sample() && r.pad != Pad::Keep { s.sample(json!({"conversion": site, "src": jd(&src), "scalar": jd(&scalar), "must_be": jd(&want), "rule": class})); }
 }
 
@@ -128,7 +139,7 @@ macro_rules! bcast { ($s:expr, $V:ident ($($f:tt)+)) => {{
     let got = $s.call(site, || json!({"scalar": jd(&v)}), || { let d: $V<Sym> = <$V<Sym> as From<Sym>>::from(v); vec![$(d.$f),+] });
     let n = [$(stringify!($f)),+].len();
     $s.class("broadcast");
-    chk($s, site, "wrong-routing", &|| json!({"scalar": jd(&v)}), got, &vec![v; n], true, 0);
+    chk_sym($s, site, "wrong-routing", &|| json!({"scalar": jd(&v)}), got, &vec![v; n], true, 0);
 }}}
 
 fn sec_conversions(s: &Section) {
@@ -189,7 +200,7 @@ fn sec_swizzles(s: &Section) {
         s.class(class);
         let inp = || json!({"self": jd(&e), "new": jd(&n)});
         let got = s.call(site, inp, f);
-        chk(s, site, "wrong-routing", &inp, got, &want, true, 0);
+        chk_sym(s, site, "wrong-routing", &inp, got, &want, true, 0);
         if class == "permutation" && s.wants_sample() { s.sample(json!({"call": site, "self": jd(&e), "must_be": jd(&want)})); }
     };
     // setters: exactly the named element is replaced
@@ -227,7 +238,7 @@ fn sec_homogeneous(s: &Section) {
         s.class(class);
         let inp = || json!({"elements": jd(&e)});
         let got = s.call(site, inp, f);
-        chk(s, site, "wrong-routing", &inp, got, &want, true, 0);
+        chk_sym(s, site, "wrong-routing", &inp, got, &want, true, 0);
         if s.wants_sample() { s.sample(json!({"call": site, "elements": jd(&e), "must_be": jd(&want)})); }
     };
     // 4D: w = One for points, Zero for directions
@@ -320,7 +331,7 @@ macro_rules! matconv { ($s:expr, $lay:ident, $ls:expr, $Dst:ident $nd:literal <-
     let mut want = [[ZERO; $nd]; $nd];
     for i in 0..$nd { for j in 0..$nd { want[i][j] = if i < $ns && j < $ns { a[i][j] } else if i == j { ONE } else { ZERO }; } }
     s.class(if $nd > $ns { "grow-pads-identity" } else { "shrink-upper-left-block" });
-    chk(s, &site, "wrong-routing", &inp, got, &want, true, 0);
+    chk_sym(s, &site, "wrong-routing", &inp, got, &want, true, 0);
     if $nd > $ns && s.wants_sample() { s.sample(json!({"conversion": site, "src": jd(&a), "must_be": jd(&want)})); }
 }}}
 fn sec_matconv(s: &Section) {
@@ -333,80 +344,102 @@ fn sec_matconv(s: &Section) {
     matconv!(s, rm, "row", Mat2 2 <- Mat4 4); matconv!(s, cm, "col", Mat2 2 <- Mat4 4);
 }
 
+/// all `n`-tuples over `alph`, parallel over the first `split` coordinates (the library's `par_tuples` splits on one)
+fn par_tuples_deep(alph: &[i64], n: usize, split: usize, f: &(impl Fn(&[i64]) + Sync)) {
+    use rayon::prelude::*;
+    let mut prefixes: Vec<Vec<i64>> = Vec::new();
+    tuples(alph, split, |p| prefixes.push(p.to_vec()));
+    prefixes.par_iter().for_each(|p| {
+        let mut cur = vec![0i64; n];
+        cur[..split].copy_from_slice(p);
+        tuples(alph, n - split, |rest| { cur[split..].copy_from_slice(rest); f(&cur); });
+    });
+}
 fn arrx<const N: usize>(a: &[i64]) -> A<X, N> { let mut m = [[qi(0); N]; N]; for i in 0..N { for j in 0..N { m[i][j] = qi(a[i * N + j] as i128); } } m }
 fn vecx<const N: usize>(a: &[i64]) -> [X; N] { let mut v = [qi(0); N]; for i in 0..N { v[i] = qi(a[i] as i128); } v }
 
-/// The real-code side of the commutation law for element type `$E`: returns pairs (embedded-then-multiplied,
-/// multiplied-then-embedded) as decoded arrays, in the order zero-pad M*v, zero-pad v*M, point M*p, point p*M,
-/// and (if a tuple conversion exists for this size pair) scalar-pad M*(v,w), (v,w)*M.
-macro_rules! commute_forms { ($E:ty, $lay:ident, $n:literal, $k:literal, $MatN:ident, $MatK:ident, $VecN:ident, $VecK:ident, $point:expr, $scalar:expr, $m:expr, $v:expr, $w:expr) => {{
+/// The real-code side of the commutation law for element type `$E`: returns triples (form id, embedded-then-
+/// multiplied, multiplied-then-embedded) as decoded arrays: 0/1 zero-pad M*v, v*M; 2/3 point M*p, p*M; 4/5 (if a
+/// tuple conversion exists for this size pair) scalar-pad M*(v,w), (v,w)*M; 6/7 direction M*d, d*M.
+macro_rules! commute_forms { ($E:ty, $lay:ident, $n:literal, $k:literal, $MatN:ident, $MatK:ident, $VecN:ident, $VecK:ident, $point:expr, $dir:expr, $scalar:expr, $m:expr, $v:expr, $w:expr) => {{
     let mn = <$lay::$MatN<$E> as MatIO<$E, $n>>::build($m);
     let vn = <$VecN<$E> as VecIO<$E, $n>>::build($v);
     let big: $lay::$MatK<$E> = <$lay::$MatK<$E> as From<$lay::$MatN<$E>>>::from(mn);
     let dec = |v: $VecK<$E>| -> [$E; $k] { <$VecK<$E> as VecIO<$E, $k>>::decode(&v) };
     let point: fn($VecN<$E>) -> $VecK<$E> = $point;
+    let dir: fn($VecN<$E>) -> $VecK<$E> = $dir;
     let scalar: Option<fn($VecN<$E>, $E) -> $VecK<$E>> = $scalar;
-    let mut out: Vec<([$E; $k], [$E; $k])> = Vec::new();
-    out.push((dec(big * <$VecK<$E> as From<$VecN<$E>>>::from(vn)), dec(<$VecK<$E> as From<$VecN<$E>>>::from(mn * vn))));
-    out.push((dec(<$VecK<$E> as From<$VecN<$E>>>::from(vn) * big), dec(<$VecK<$E> as From<$VecN<$E>>>::from(vn * mn))));
-    out.push((dec(big * point(vn)), dec(point(mn * vn))));
-    out.push((dec(point(vn) * big), dec(point(vn * mn))));
+    let mut out: Vec<(usize, [$E; $k], [$E; $k])> = Vec::new();
+    out.push((0, dec(big * <$VecK<$E> as From<$VecN<$E>>>::from(vn)), dec(<$VecK<$E> as From<$VecN<$E>>>::from(mn * vn))));
+    out.push((1, dec(<$VecK<$E> as From<$VecN<$E>>>::from(vn) * big), dec(<$VecK<$E> as From<$VecN<$E>>>::from(vn * mn))));
+    out.push((2, dec(big * point(vn)), dec(point(mn * vn))));
+    out.push((3, dec(point(vn) * big), dec(point(vn * mn))));
     if let Some(sc) = scalar {
-        out.push((dec(big * sc(vn, $w)), dec(sc(mn * vn, $w))));
-        out.push((dec(sc(vn, $w) * big), dec(sc(vn * mn, $w))));
+        out.push((4, dec(big * sc(vn, $w)), dec(sc(mn * vn, $w))));
+        out.push((5, dec(sc(vn, $w) * big), dec(sc(vn * mn, $w))));
     }
+    out.push((6, dec(big * dir(vn)), dec(dir(mn * vn))));
+    out.push((7, dec(dir(vn) * big), dec(dir(vn * mn))));
     out
 }}}
-const FORM_NAMES: [&str; 6] = ["M*From(v)", "From(v)*M", "M*point(v)", "point(v)*M", "M*From((v,w))", "From((v,w))*M"];
+const FORM_NAMES: [&str; 8] = ["M*From(v)", "From(v)*M", "M*point(v)", "point(v)*M", "M*From((v,w))", "From((v,w))*M", "M*direction(v)", "direction(v)*M"];
 
-macro_rules! commute { ($s:expr, $d:expr, $lay:ident, $ls:expr, $n:literal, $k:literal, $MatN:ident, $MatK:ident, $VecN:ident, $VecK:ident, $pname:expr, $point:expr, $scalar:expr, $has_scalar:expr) => {{
+macro_rules! commute { ($s:expr, $d:expr, $lay:ident, $ls:expr, $n:literal, $k:literal, $MatN:ident, $MatK:ident, $VecN:ident, $VecK:ident, $pname:expr, $point:expr, $dname:expr, $dir:expr, $scalar:expr, $has_scalar:expr) => {{
     let s: &Section = $s;
     let d: u32 = $d;
     let cfg = format!("{}->{} {}-major", stringify!($MatN), stringify!($MatK), $ls);
     // premise: branch-free, total degree <= 2 (measured on the code on disk)
     let measured = match catch(|| { let m = [[Deg::VAR; $n]; $n]; let v = [Deg::VAR; $n];
-            commute_forms!(Deg, $lay, $n, $k, $MatN, $MatK, $VecN, $VecK, $point, $scalar, &m, &v, Deg::VAR) }) {
-        Ok(fs) => fs.iter().flat_map(|(a, b)| a.iter().chain(b.iter())).map(|x| { if x.d != 0 { s.degrade("division present"); } x.n + x.d }).max().unwrap_or(0),
+            commute_forms!(Deg, $lay, $n, $k, $MatN, $MatK, $VecN, $VecK, $point, $dir, $scalar, &m, &v, Deg::VAR) }) {
+        Ok(fs) => fs.iter().flat_map(|(_, a, b)| a.iter().chain(b.iter())).map(|x| { if x.d != 0 { s.degrade("division present"); } x.n + x.d }).max().unwrap_or(0),
         Err(e) => { s.degrade(&format!("{}: degree run failed: {:?}", cfg, e)); 99 }
     };
     if measured > d { s.degrade(&format!("{}: measured degree {} exceeds lattice order {}", cfg, measured, d)); }
     s.meta(&format!("measured_degree {}", cfg), json!(measured));
     let nn = $n * $n;
     let nv = nn + $n + if $has_scalar { 1 } else { 0 };
-    par_lattice(nv, d, |a| {
+    let body = |a: &[i64]| {
         let m: A<X, $n> = arrx::<$n>(&a[..nn]);
         let v: [X; $n] = vecx::<$n>(&a[nn..nn + $n]);
         let w: X = if $has_scalar { qi(a[nn + $n] as i128) } else { qi(0) };
         let nz = a[..nn].iter().any(|&t| t != 0) && a[nn..nn + $n].iter().any(|&t| t != 0);
-        let wt: u64 = a.iter().sum::<i64>() as u64;
+        let wt: u64 = a.iter().map(|t| t.unsigned_abs()).sum::<u64>();
         let inp = || json!({"M": jmat(&m), "v": jxs(&v), "w": jx(w)});
         // reference over plain arrays
         let (mv, vm) = (mvec(&m, &v), vmat(&v, &m));
         let pad = |b: &[X; $n], last: X| -> [X; $k] { let mut o = [qi(0); $k]; o[..$n].copy_from_slice(b); o[$k - 1] = last; o };
-        let wants: [[X; $k]; 6] = [pad(&mv, qi(0)), pad(&vm, qi(0)), pad(&mv, qi(1)), pad(&vm, qi(1)), pad(&mv, w), pad(&vm, w)];
-        let got = s.call(&format!("commutation {}", cfg), inp, || commute_forms!(X, $lay, $n, $k, $MatN, $MatK, $VecN, $VecK, $point, $scalar, &m, &v, w));
+        let wants: [[X; $k]; 8] = [pad(&mv, qi(0)), pad(&vm, qi(0)), pad(&mv, qi(1)), pad(&vm, qi(1)), pad(&mv, w), pad(&vm, w), pad(&mv, qi(0)), pad(&vm, qi(0))];
+        let got = s.call(&format!("commutation {}", cfg), inp, || commute_forms!(X, $lay, $n, $k, $MatN, $MatK, $VecN, $VecK, $point, $dir, $scalar, &m, &v, w));
         if let Some(fs) = got {
-            for (i, (lhs, rhs)) in fs.iter().enumerate() {
+            for (i, lhs, rhs) in fs.iter() {
+                let i = *i;
                 s.eval(nz);
-                let form = FORM_NAMES[i].replace("point", $pname);
+                let form = FORM_NAMES[i].replace("point", $pname).replace("direction", $dname);
                 let site = format!("{} {}", cfg, form);
                 if lhs != rhs { s.violation_w(&site, "embedding-does-not-commute", json!({"input": inp(), "embed_then_multiply": jxs(lhs), "multiply_then_embed": jxs(rhs)}), wt); }
                 if lhs != &wants[i] { s.violation_w(&site, "wrong-value", json!({"input": inp(), "got": jxs(lhs), "want": jxs(&wants[i])}), wt); }
             }
             s.class(if !$has_scalar { "no-tuple-conversion-for-this-size-pair" } else if w == qi(0) { "w=0" } else if w == qi(1) { "w=1" } else { "w-other" });
+            if a.iter().any(|&t| t < 0) { s.class("signed-cube-point"); }
             if nz && wt == d as u64 && mv.iter().all(|x| *x != qi(0)) && s.wants_sample() { s.sample(json!({"config": cfg, "M": jmat(&m), "v": jxs(&v), "w": jx(w), "M*point(v) must be": jxs(&wants[2]), "forms_checked": fs.len()})); }
         }
-    });
+    };
+    par_lattice(nv, d, &body);
     s.meta(&format!("lattice {}", cfg), json!({"variables": nv, "order": d, "points": lattice_count(nv, d).to_string()}));
+    // beyond the lattice (which already decides the degree-2 identity): a full cube of signed entries, so that the
+    // verdict on negative / mixed-sign matrices, vectors and scalars does not rest on the degree premise alone
+    let signed: &[i64] = if s.thorough() { &[-3, -1, 2] } else { &[-2, 1] };
+    par_tuples_deep(signed, nv, 5.min(nv - 1), &body);
+    s.meta(&format!("signed cube {}", cfg), json!({"alphabet": signed, "variables": nv, "points": (signed.len() as u128).pow(nv as u32).to_string()}));
 }}}
 fn sec_commute(s: &Section, d: u32) {
-    s.require_classes(&["w=0", "w=1", "w-other"]);
-    commute!(s, d, rm, "row", 2, 3, Mat2, Mat3, Vec2, Vec3, "from_point_2d", |v| Vec3::from_point_2d(v), Some(|v, w| Vec3::from((v, w))), true);
-    commute!(s, d, cm, "col", 2, 3, Mat2, Mat3, Vec2, Vec3, "from_point_2d", |v| Vec3::from_point_2d(v), Some(|v, w| Vec3::from((v, w))), true);
-    commute!(s, d, rm, "row", 2, 4, Mat2, Mat4, Vec2, Vec4, "from_point", |v| Vec4::from_point(v), None, false);
-    commute!(s, d, cm, "col", 2, 4, Mat2, Mat4, Vec2, Vec4, "from_point", |v| Vec4::from_point(v), None, false);
-    commute!(s, d, rm, "row", 3, 4, Mat3, Mat4, Vec3, Vec4, "from_point", |v| Vec4::from_point(v), Some(|v, w| Vec4::from((v, w))), true);
-    commute!(s, d, cm, "col", 3, 4, Mat3, Mat4, Vec3, Vec4, "from_point", |v| Vec4::from_point(v), Some(|v, w| Vec4::from((v, w))), true);
+    s.require_classes(&["w=0", "w=1", "w-other", "signed-cube-point"]);
+    commute!(s, d, rm, "row", 2, 3, Mat2, Mat3, Vec2, Vec3, "from_point_2d", |v| Vec3::from_point_2d(v), "from_direction_2d", |v| Vec3::from_direction_2d(v), Some(|v, w| Vec3::from((v, w))), true);
+    commute!(s, d, cm, "col", 2, 3, Mat2, Mat3, Vec2, Vec3, "from_point_2d", |v| Vec3::from_point_2d(v), "from_direction_2d", |v| Vec3::from_direction_2d(v), Some(|v, w| Vec3::from((v, w))), true);
+    commute!(s, d, rm, "row", 2, 4, Mat2, Mat4, Vec2, Vec4, "from_point", |v| Vec4::from_point(v), "from_direction", |v| Vec4::from_direction(v), None, false);
+    commute!(s, d, cm, "col", 2, 4, Mat2, Mat4, Vec2, Vec4, "from_point", |v| Vec4::from_point(v), "from_direction", |v| Vec4::from_direction(v), None, false);
+    commute!(s, d, rm, "row", 3, 4, Mat3, Mat4, Vec3, Vec4, "from_point", |v| Vec4::from_point(v), "from_direction", |v| Vec4::from_direction(v), Some(|v, w| Vec4::from((v, w))), true);
+    commute!(s, d, cm, "col", 3, 4, Mat3, Mat4, Vec3, Vec4, "from_point", |v| Vec4::from_point(v), "from_direction", |v| Vec4::from_direction(v), Some(|v, w| Vec4::from((v, w))), true);
 }
 
 // =================================================================================================
@@ -470,8 +503,8 @@ macro_rules! shuffle4 { ($s:expr, $V:ident ($x:ident $y:ident $z:ident $w:ident)
         s.class(if ident { "identity-mask" } else if a == b && b == c && c == d { "broadcast-mask" } else if sorted == [0, 1, 2, 3] { "permutation-mask" } else { "general-mask" });
         let wt = (a + b + c + d) as u64;
         let mask = ShuffleMask4::new(a, b, c, d);
-        chk(s, &format!("{}::shuffle_lo_hi", vn), "wrong-lanes", &inp, s.call(&format!("{}::shuffle_lo_hi", vn), inp, || dec($V::shuffle_lo_hi(lo, hi, mask))), &[l[a], l[b], h[c], h[d]], !ident, wt);
-        chk(s, &format!("{}::shuffled", vn), "wrong-lanes", &inp, s.call(&format!("{}::shuffled", vn), inp, || dec(lo.shuffled(mask))), &[l[a], l[b], l[c], l[d]], !ident, wt);
+        chk_sym(s, &format!("{}::shuffle_lo_hi", vn), "wrong-lanes", &inp, s.call(&format!("{}::shuffle_lo_hi", vn), inp, || dec($V::shuffle_lo_hi(lo, hi, mask))), &[l[a], l[b], h[c], h[d]], !ident, wt);
+        chk_sym(s, &format!("{}::shuffled", vn), "wrong-lanes", &inp, s.call(&format!("{}::shuffled", vn), inp, || dec(lo.shuffled(mask))), &[l[a], l[b], l[c], l[d]], !ident, wt);
         if !ident && wt == 5 && s.wants_sample() { s.sample(json!({"type": vn, "lo": jd(&l), "hi": jd(&h), "mask": [a, b, c, d], "shuffle_lo_hi must be": jd(&[l[a], l[b], h[c], h[d]])})); }
     } } } }
     // masks given as tuples / arrays / a single index, including out-of-range indices (taken modulo 4)
@@ -482,13 +515,13 @@ macro_rules! shuffle4 { ($s:expr, $V:ident ($x:ident $y:ident $z:ident $w:ident)
         s.class("out-of-range-tuple");
         let inp = || json!({"lo": jd(&l), "hi": jd(&h), "mask": t.iter().map(|i| i.to_string()).collect::<Vec<_>>()});
         let wt = t.iter().map(|&i| if i > 16 { 100 } else { i as u64 }).sum::<u64>();
-        chk(s, &format!("{}::shuffle_lo_hi", vn), "wrong-lanes-out-of-range-index", &inp, s.call(&format!("{}::shuffle_lo_hi", vn), inp, || dec($V::shuffle_lo_hi(lo, hi, (a, b, c, d)))), &[l[a % 4], l[b % 4], h[c % 4], h[d % 4]], true, wt);
-        chk(s, &format!("{}::shuffled", vn), "wrong-lanes-out-of-range-index", &inp, s.call(&format!("{}::shuffled", vn), inp, || dec(lo.shuffled([a, b, c, d]))), &[l[a % 4], l[b % 4], l[c % 4], l[d % 4]], true, wt);
+        chk_sym(s, &format!("{}::shuffle_lo_hi", vn), "wrong-lanes-out-of-range-index", &inp, s.call(&format!("{}::shuffle_lo_hi", vn), inp, || dec($V::shuffle_lo_hi(lo, hi, (a, b, c, d)))), &[l[a % 4], l[b % 4], h[c % 4], h[d % 4]], true, wt);
+        chk_sym(s, &format!("{}::shuffled", vn), "wrong-lanes-out-of-range-index", &inp, s.call(&format!("{}::shuffled", vn), inp, || dec(lo.shuffled([a, b, c, d]))), &[l[a % 4], l[b % 4], l[c % 4], l[d % 4]], true, wt);
     });
     for &i in &al {
         s.class("single-index");
         let inp = || json!({"v": jd(&l), "mask": i.to_string()});
-        chk(s, &format!("{}::shuffled", vn), "wrong-lanes-single-index", &inp, s.call(&format!("{}::shuffled", vn), inp, || dec(lo.shuffled(i))), &[l[i % 4]; 4], true, 0);
+        chk_sym(s, &format!("{}::shuffled", vn), "wrong-lanes-single-index", &inp, s.call(&format!("{}::shuffled", vn), inp, || dec(lo.shuffled(i))), &[l[i % 4]; 4], true, 0);
     }
     // fixed helpers against the lane diagrams of their doc comments: a = (0,1,2,3), b = (4,5,6,7)
     let ab = [l[0], l[1], l[2], l[3], h[0], h[1], h[2], h[3]];
@@ -497,7 +530,7 @@ macro_rules! shuffle4 { ($s:expr, $V:ident ($x:ident $y:ident $z:ident $w:ident)
         s.class("lane-diagram");
         let site = format!("{}::{}", vn, name);
         let inp = || json!({"a": jd(&l), "b": jd(&h), "doc_diagram": diagram});
-        chk(s, &site, "wrong-lanes", &inp, s.call(&site, inp, f), &pick(diagram), true, 0);
+        chk_sym(s, &site, "wrong-lanes", &inp, s.call(&site, inp, f), &pick(diagram), true, 0);
     };
     fixed("interleave_0011", [0, 4, 1, 5], &|| dec($V::interleave_0011(lo, hi)));
     fixed("interleave_2233", [2, 6, 3, 7], &|| dec($V::interleave_2233(lo, hi)));
@@ -535,6 +568,9 @@ trait CC: ColorComponent + Copy + PartialEq + Debug + Sub<Output = Self> + 'stat
     fn fixed() -> [Self; 4];
     /// distance from zero, for ordering counterexamples
     fn weight(self) -> u64;
+    /// negative values of plain signed integer types (outside the colour range; `average_rgb` is still defined on
+    /// them whenever the sums are representable); empty for every other type
+    fn negatives() -> Vec<Self> { Vec::new() }
 }
 /// types on which `average_rgb` can be called at all (`From<u8>` exists)
 trait Avg: CC + Add<Output = Self> + Div<Output = Self> + From<u8> {
@@ -563,6 +599,13 @@ macro_rules! int_alphabets { ($t:ty, $wrap_signed:expr) => {
         v.into_iter().map(Self::mk).collect()
     }
     fn fixed() -> [Self; 4] { let m = <$t>::MAX; [Self::mk(m / 3), Self::mk(m / 5 * 2 + 1), Self::mk(7), Self::mk(m / 2 + 3)] }
+    fn negatives() -> Vec<Self> {
+        if <$t>::MIN == 0 { return Vec::new(); }
+        let (z, min) = (0 as $t, <$t>::MIN);
+        let mut v: Vec<$t> = vec![z.wrapping_sub(1), z.wrapping_sub(2), z.wrapping_sub(4), z.wrapping_sub(5), z.wrapping_sub(7), min / 3, min / 3 + 1, min / 2, min + 1, min];
+        v.sort(); v.dedup();
+        v.into_iter().map(Self::mk).collect()
+    }
 } }
 trait Mk<R> { fn mk(r: R) -> Self; }
 macro_rules! cc_int { ($($t:ident)+) => { $(
@@ -728,12 +771,15 @@ fn colour_average<T: Avg>(s: &Section) {
     s.class(&format!("type:{}", tn));
     let mut vals: Vec<T> = T::alphabet(s.thorough()).into_iter().filter(|v| v.in_colour_range()).collect();
     // small values whose sum is not a multiple of 3, and the fixed channel values
-    for v in T::sweep(false).into_iter().filter(|v| v.in_colour_range()).take(12) { if !vals.contains(&v) { vals.push(v); } }
+    for v in T::sweep(false).into_iter().filter(|v| v.in_colour_range()).take(if s.thorough() { 40 } else { 12 }) { if !vals.contains(&v) { vals.push(v); } }
     for v in T::fixed() { if !vals.contains(&v) { vals.push(v); } }
+    // plain signed integers: negative channels too ((r+g+b)/3 truncates towards zero, like i128 division)
+    for v in T::negatives() { if !vals.contains(&v) { vals.push(v); } }
     let alphas = [T::zero_ref(), T::full_ref(), T::fixed()[3]];
     for &r in &vals { for &g in &vals { for &b in &vals {
         if !T::callable(r, g, b) { s.class("sum-not-representable (not called)"); continue; }
         s.class("sum-representable");
+        if ![r, g, b].iter().all(|v| v.in_colour_range()) { s.class("negative-channel (plain signed ints)"); }
         let wt = r.weight().saturating_add(g.weight()).saturating_add(b.weight());
         let nt = !(r == g && g == b);
         let inp = || json!({"r": jd(&r), "g": jd(&g), "b": jd(&b)});
@@ -755,9 +801,9 @@ fn sec_reorder(s: &Section) {
     let c4 = Rgba { r: e[0], g: e[1], b: e[2], a: e[3] };
     let c3 = Rgb { r: e[0], g: e[1], b: e[2] };
     let inp = || json!({"r,g,b,a": jd(&e)});
-    chk(s, "Rgba::shuffled_argb", "wrong-routing", &inp, s.call("Rgba::shuffled_argb", inp, || drgba(c4.shuffled_argb()).to_vec()), &vec![e[3], e[0], e[1], e[2]], true, 0);
-    chk(s, "Rgba::shuffled_bgra", "wrong-routing", &inp, s.call("Rgba::shuffled_bgra", inp, || drgba(c4.shuffled_bgra()).to_vec()), &vec![e[2], e[1], e[0], e[3]], true, 0);
-    chk(s, "Rgb::shuffled_bgr", "wrong-routing", &inp, s.call("Rgb::shuffled_bgr", inp, || drgb(c3.shuffled_bgr()).to_vec()), &vec![e[2], e[1], e[0]], true, 0);
+    chk_sym(s, "Rgba::shuffled_argb", "wrong-routing", &inp, s.call("Rgba::shuffled_argb", inp, || drgba(c4.shuffled_argb()).to_vec()), &vec![e[3], e[0], e[1], e[2]], true, 0);
+    chk_sym(s, "Rgba::shuffled_bgra", "wrong-routing", &inp, s.call("Rgba::shuffled_bgra", inp, || drgba(c4.shuffled_bgra()).to_vec()), &vec![e[2], e[1], e[0], e[3]], true, 0);
+    chk_sym(s, "Rgb::shuffled_bgr", "wrong-routing", &inp, s.call("Rgb::shuffled_bgr", inp, || drgb(c3.shuffled_bgr()).to_vec()), &vec![e[2], e[1], e[0]], true, 0);
     s.sample(json!({"rgba": jd(&e), "shuffled_argb must be": jd(&[e[3], e[0], e[1], e[2]]), "shuffled_bgra must be": jd(&[e[2], e[1], e[0], e[3]])}));
 }
 
@@ -772,6 +818,513 @@ const CC_TYPES: [&str; 18] = ["type:u8", "type:u16", "type:u32", "type:u64", "ty
 const AVG_TYPES: [&str; 9] = ["type:u8", "type:u16", "type:u32", "type:u64", "type:i16", "type:i32", "type:i64", "type:f32", "type:f64"];
 
 
+// =================================================================================================
+// 8. (added by the audit) floats beyond the exactly representable colour range
+// =================================================================================================
+/// Float component types on *general* inputs: values whose complement / sum is not exact, values outside
+/// [0,1] (HDR, negative), signed zero, subnormals, huge values, infinities, NaN.
+trait FloatCC: CC + Add<Output = Self> + Div<Output = Self> + From<u8> + PartialOrd {
+    /// unit roundoff 2^-p
+    const U: f64;
+    /// ordinary finite values: k/255 (8-bit colours mapped to floats), decimal fractions, HDR and negative values
+    fn general(thorough: bool) -> Vec<Self>;
+    /// finite edge values and non-finite values
+    fn specials() -> Vec<Self>;
+    /// values for the averaging cube: 24-bit significands within [2^-10, 2^11], so that r+g+b is exact in f64
+    fn avg_values(thorough: bool) -> Vec<Self>;
+    /// 1 - c as one IEEE-754 subtraction of the type (std arithmetic; correctly rounded by definition)
+    fn one_minus(self) -> Self;
+    /// same datum: bitwise equal, or both NaN
+    fn same(self, o: Self) -> bool;
+    fn to64(self) -> f64;
+    fn is_nan_(self) -> bool;
+}
+macro_rules! float_cc { ($($t:ident $u:expr;)+) => { $(
+    impl FloatCC for $t {
+        const U: f64 = $u;
+        fn general(thorough: bool) -> Vec<Self> {
+            let mut v: Vec<$t> = (0..=255u32).map(|k| k as $t / 255.0).collect();
+            v.extend([0.1, 0.2, 0.3, 0.7, 0.9, 1.0 / 3.0, 2.0 / 3.0, 1.5, 2.75, 1.0e3, 1.0e-3, -0.25, -0.1, -1.0, -1.0e3, 3.0e-5, 16777217.0]);
+            if thorough { v.extend((1..1000u32).map(|k| k as $t / 1000.0)); v.extend((0..=1023u32).map(|k| k as $t / 1023.0)); v.extend((1..200u32).map(|k| 1.0 + k as $t / 7.0)); v.extend((1..200u32).map(|k| -(k as $t) / 11.0)); }
+            v
+        }
+        fn specials() -> Vec<Self> {
+            vec![-0.0, <$t>::MIN_POSITIVE, <$t>::from_bits(1), -<$t>::from_bits(1), <$t>::EPSILON, <$t>::EPSILON / 2.0, 1.0 - <$t>::EPSILON / 2.0, 1.0 + <$t>::EPSILON, 2.0 - <$t>::EPSILON,
+                 <$t>::MAX, <$t>::MIN, <$t>::INFINITY, <$t>::NEG_INFINITY, <$t>::NAN]
+        }
+        fn avg_values(thorough: bool) -> Vec<Self> {
+            let step = if thorough { 2 } else { 5 };
+            let mut v: Vec<$t> = (0..=255u32).step_by(step).map(|k| (k as f32 / 255.0) as $t).collect();
+            v.extend([0.1f32, 0.2, 0.3, 1.0 / 3.0, 0.7, 1.5, 2.75, 1000.0, -0.25, -0.1, -1.0, -1000.0, 0.001].iter().map(|&x| x as $t));
+            v
+        }
+        fn one_minus(self) -> Self { 1.0 - self }
+        fn same(self, o: Self) -> bool { self.to_bits() == o.to_bits() || (self.is_nan() && o.is_nan()) }
+        fn to64(self) -> f64 { self as f64 }
+        fn is_nan_(self) -> bool { self.is_nan() }
+    }
+)+ } }
+float_cc! { f32 5.9604644775390625e-8; f64 1.1102230246251565e-16; }
+
+/// inverted_rgb on general floats: every channel is the correctly rounded 1 - c (one IEEE subtraction, compared
+/// bit for bit), alpha is the same datum (bit for bit, NaN payload aside), and the same holds for the second
+/// inversion (for floats the involution is exact only where 1 - c is exact -- that part is asserted in
+/// `colour_inverted`; here twice-inverted must equal 1 - (1 - c), which is within (ulp(1-c) + ulp(result))/2 of c)
+fn colour_inverted_float<T: FloatCC>(s: &Section) {
+    let tn = T::NAME;
+    s.class(&format!("type:{}", tn));
+    let (site3, site4) = (format!("Rgb<{}>::inverted_rgb", tn), format!("Rgba<{}>::inverted_rgb", tn));
+    let one = |c: [T; 4]| {
+        let wt = c.iter().fold(0u64, |a, v| a.saturating_add(v.weight()));
+        let inp = || json!({"r": jd(&c[0]), "g": jd(&c[1]), "b": jd(&c[2]), "a": jd(&c[3])});
+        let w1 = [c[0].one_minus(), c[1].one_minus(), c[2].one_minus(), c[3]];
+        let w2 = [w1[0].one_minus(), w1[1].one_minus(), w1[2].one_minus(), c[3]];
+        let eq = |a: &[T], b: &[T]| a.iter().zip(b).all(|(x, y)| x.same(*y));
+        s.eval(true);
+        if let Some((g1, g2)) = s.call(&site4, inp, || { let i = Rgba { r: c[0], g: c[1], b: c[2], a: c[3] }.inverted_rgb(); (drgba(i), drgba(i.inverted_rgb())) }) {
+            if !g1[3].same(c[3]) || !g2[3].same(c[3]) { s.violation_w(&site4, "alpha-not-preserved", json!({"input": inp(), "got": jd(&g1), "twice": jd(&g2), "want": jd(&w1)}), wt); }
+            if !eq(&g1[..3], &w1[..3]) { s.violation_w(&site4, "not-full-minus-channel", json!({"input": inp(), "got": jd(&g1), "want": jd(&w1)}), wt); }
+            if !eq(&g2[..3], &w2[..3]) { s.violation_w(&site4, "not-an-involution", json!({"input": inp(), "inverted_twice": jd(&g2), "want (1-(1-c), correctly rounded twice)": jd(&w2)}), wt); }
+        }
+        s.eval(true);
+        if let Some((g1, g2)) = s.call(&site3, inp, || { let i = Rgb { r: c[0], g: c[1], b: c[2] }.inverted_rgb(); (drgb(i), drgb(i.inverted_rgb())) }) {
+            if !eq(&g1, &w1[..3]) { s.violation_w(&site3, "not-full-minus-channel", json!({"input": inp(), "got": jd(&g1), "want": jd(&w1[..3].to_vec())}), wt); }
+            if !eq(&g2, &w2[..3]) { s.violation_w(&site3, "not-an-involution", json!({"input": inp(), "inverted_twice": jd(&g2), "want (1-(1-c), correctly rounded twice)": jd(&w2[..3].to_vec())}), wt); }
+        }
+        // the derived closeness of the twice-inverted value to the input (moderate finite values; exact in f64 for f32,
+        // and for f64 the differences below are of nearby doubles, hence exact too)
+        for k in 0..3 {
+            let (c0, a, b) = (c[k].to64(), w1[k].to64(), w2[k].to64());
+            if !(c0.abs() <= 1024.0) || c0 == 0.0 { continue; }
+            let ulp = |x: f64| -> f64 { let x = x.abs().max(f64::MIN_POSITIVE); let e = x.log2().floor(); 2f64.powf(e) * 2.0 * T::U };
+            s.eval(true);
+            if !((b - c0).abs() <= (ulp(a) + ulp(b)) / 2.0 * 1.0000001) { s.violation_w(&site4, "twice-inverted-not-within-derived-bound-of-input", json!({"input": inp(), "channel": k, "1-c": a, "1-(1-c)": b, "bound": (ulp(a) + ulp(b)) / 2.0}), wt); }
+        }
+        if s.wants_sample() && tn == "f32" && c[0].to64() > 0.19 && c[0].to64() < 0.21 { s.sample(json!({"type": tn, "rgba": jd(&c), "inverted_rgb must be": jd(&w1), "twice": jd(&w2)})); }
+    };
+    let fx = T::fixed();
+    let (gen, spec) = (T::general(s.thorough()), T::specials());
+    for pos in 0..4 {
+        for &v in &gen { let mut c = fx; c[pos] = v; s.class("float-general"); one(c); }
+        for &v in &spec { let mut c = fx; c[pos] = v; s.class("float-special"); one(c); }
+    }
+    // a small full product mixing ordinary, HDR, negative and special values in all four positions
+    let mix: Vec<T> = { let mut m: Vec<T> = vec![gen[51], gen[200], gen[256], gen[263], gen[267]]; m.extend(spec.iter().copied().filter(|v| !v.is_nan_()).take(3)); m.push(spec[spec.len() - 3]); m.push(spec[spec.len() - 1]); m };
+    for &r in &mix { for &g in &mix { for &b in &mix { for &a in &mix { s.class("float-mixed-product"); one([r, g, b, a]); } } } }
+}
+
+/// error-free sum of two doubles: (fl(a+b), a+b-fl(a+b))
+fn two_sum(a: f64, b: f64) -> (f64, f64) { let s = a + b; let bb = s - a; (s, (a - (s - bb)) + (b - bb)) }
+
+/// average_rgb on general floats (inexact sums, HDR, negative): within the forward error bound of evaluating
+/// (r+g+b)/3 in the type, in any order: |got - (r+g+b)/3| <= 4u (|r|+|g|+|b|)/3  (+ u for the oracle's own final
+/// rounding in f64).  The exact sum is formed in f64 and checked to be exact with TwoSum.
+fn colour_average_float<T: FloatCC>(s: &Section) {
+    let tn = T::NAME;
+    s.class(&format!("type:{}", tn));
+    let vals = T::avg_values(s.thorough());
+    let alphas = [T::zero_ref(), T::fixed()[3]];
+    let (site3, site4) = (format!("Rgb<{}>::average_rgb", tn), format!("Rgba<{}>::average_rgb", tn));
+    let mut cnt = [0u64; 4];
+    for &r in &vals { for &g in &vals { for &b in &vals {
+        let (r6, g6, b6) = (r.to64(), g.to64(), b.to64());
+        let (s1, e1) = two_sum(r6, g6); let (s2, e2) = two_sum(s1, b6);
+        if e1 != 0.0 || e2 != 0.0 { s.rep.machinery_error(format!("average_rgb float oracle: r+g+b not exact in f64 for {:?} {:?} {:?}", r, g, b)); continue; }
+        let want = s2 / 3.0;
+        let scale = (r6.abs() + g6.abs() + b6.abs()) / 3.0;
+        let bound = (4.0 * T::U + 2.0 * f64::EPSILON) * scale;
+        let exact_sum_in_type = T::U < 1e-10 || { let q = |v: f64| (v as f32) as f64 == v; q(s1) && q(s2) };
+        if exact_sum_in_type { cnt[0] += 1; } else { cnt[1] += 1; }
+        if r6 < 0.0 || g6 < 0.0 || b6 < 0.0 { cnt[2] += 1; }
+        if r6 > 1.0 || g6 > 1.0 || b6 > 1.0 { cnt[3] += 1; }
+        let wt = (scale * 4096.0) as u64;
+        let nt = !(r == g && g == b);
+        let inp = || json!({"r": jd(&r), "g": jd(&g), "b": jd(&b)});
+        s.eval(nt);
+        if let Some(got) = s.call(&site3, inp, || Rgb { r, g, b }.average_rgb()) {
+            if !((got.to64() - want).abs() <= bound) { s.violation_w(&site3, "not-sum-over-3", json!({"input": inp(), "got": jd(&got), "want": want, "bound": bound}), wt); }
+        }
+        for &a in &alphas {
+            s.eval(nt);
+            if let Some(got) = s.call(&site4, inp, || Rgba { r, g, b, a }.average_rgb()) {
+                if !((got.to64() - want).abs() <= bound) { s.violation_w(&site4, "not-sum-over-3", json!({"input": inp(), "alpha": jd(&a), "got": jd(&got), "want": want, "bound": bound}), wt); }
+            }
+        }
+    } } }
+    for (k, name) in ["float-sum-exact-in-type", "float-sum-rounded-in-type", "float-negative-channel", "float-above-full"].iter().enumerate() { if cnt[k] > 0 { s.class_n(name, cnt[k]); } }
+}
+
+/// thorough tier: average_rgb on u8 is decided completely (all 2^24 triples; those whose sum or partial sum
+/// exceeds 255 are counted and not called)
+fn colour_average_u8_exhaustive(s: &Section) {
+    let al: Vec<u8> = (0..=255u8).collect();
+    par_tuples(&al, 2, |t| {
+        let (r, g) = (t[0], t[1]);
+        let (mut called, mut skipped, mut nt) = (0u64, 0u64, 0u64);
+        for b in 0..=255u8 {
+            let sum = r as u32 + g as u32 + b as u32;
+            if sum > 255 || r as u32 + g as u32 > 255 { skipped += 1; continue; }
+            let want = (sum / 3) as u8;
+            let inp = || json!({"r": r, "g": g, "b": b});
+            let got3 = s.call("Rgb<u8>::average_rgb", inp, || Rgb { r, g, b }.average_rgb());
+            let got4 = s.call("Rgba<u8>::average_rgb", inp, || Rgba { r, g, b, a: 255u8.wrapping_sub(b) }.average_rgb());
+            if let Some(x) = got3 { if x != want { s.violation_w("Rgb<u8>::average_rgb", "not-sum-over-3", json!({"input": inp(), "got": x, "want": want}), sum as u64); } }
+            if let Some(x) = got4 { if x != want { s.violation_w("Rgba<u8>::average_rgb", "not-sum-over-3", json!({"input": inp(), "got": x, "want": want}), sum as u64); } }
+            called += 2; if !(r == g && g == b) { nt += 2; }
+        }
+        s.evals(called, nt);
+        s.class_n("u8-exhaustive: sum-representable", called / 2);
+        s.class_n("u8-exhaustive: sum-not-representable (not called)", skipped);
+    });
+}
+
+// =================================================================================================
+// 9. (added by the audit) the parametricity premise: functions whose bounds let them observe or combine elements
+// =================================================================================================
+/// A function `impl<T>` without bounds can only move elements, so one run on distinct symbols decides it.  But
+/// `T: Zero` gives the code `is_zero()` and `+`, `T: One` gives `*`, `T: ColorComponent` gives both plus `full()`:
+/// such a function *can* treat a zero element differently or combine elements.  (Results are compared modulo
+/// the neutral-element laws x+0 = x, 1*x = x, 0*x = 0, so only a semantic difference counts.)  Every anchored function with such a
+/// bound is therefore run on the free term algebra (`Term`: every operator is recorded, nothing panics) for every
+/// assignment of each element position to {its own generator, the constant 0 (is_zero() is true), 1, 255 = full()}.
+fn term_alphabet(i: usize) -> [Term; 4] { [Term::var(10 + i as u32), Term::cst(0), Term::cst(1), Term::cst(255)] }
+fn term_cases(n: usize, choices: usize, mut f: impl FnMut(&[Term], &[usize])) {
+    let idx: Vec<usize> = (0..choices).collect();
+    tuples(&idx, n, |t| { let e: Vec<Term> = t.iter().enumerate().map(|(i, &c)| term_alphabet(i)[c]).collect(); f(&e, t); });
+}
+/// neutral-element laws of a ring, so that the comparison below is semantic (x + 0, 1 * x ... still count as x)
+fn simp(t: Term) -> Term {
+    let (z, o) = (Term::cst(0), Term::cst(1));
+    match t.node() {
+        Node::Un(op, a) => { let a = simp(a); if op == "neg" && a == z { z } else { Term::un(op, a) } }
+        Node::Bin(op, a, b) => { let (a, b) = (simp(a), simp(b)); match op {
+            "add" if a == z => b, "add" | "sub" if b == z => a,
+            "mul" if a == z || b == z => z, "mul" if a == o => b, "mul" | "div" if b == o => a,
+            _ => Term::bin(op, a, b) } }
+        _ => t,
+    }
+}
+fn obs_class(s: &Section, t: &[usize]) {
+    if t.iter().all(|&c| c == 0) { s.class("all-generators"); }
+    if t.iter().any(|&c| c == 1) { s.class("contains-zero"); }
+    if t.iter().any(|&c| c == 2) { s.class("contains-one"); }
+    if t.iter().any(|&c| c == 3) { s.class("contains-full"); }
+    if t.iter().all(|&c| c == 1) { s.class("all-zero"); }
+}
+macro_rules! matobs { ($s:expr, $choices:expr, $lay:ident, $ls:expr, $Dst:ident $nd:literal <- $Src:ident $ns:literal) => {{
+    let s: &Section = $s;
+    let site = format!("From<{}> for {} ({}-major) on observable elements", stringify!($Src), stringify!($Dst), $ls);
+    term_cases($ns * $ns, $choices, |e, t| {
+        obs_class(s, t);
+        let mut a = [[Term::cst(0); $ns]; $ns];
+        for i in 0..$ns { for j in 0..$ns { a[i][j] = e[i * $ns + j]; } }
+        let src = <$lay::$Src<Term> as MatIO<Term, $ns>>::build(&a);
+        let inp = || json!({"src": jd(&a)});
+        let got = s.call(&site, inp, || { let d: $lay::$Dst<Term> = <$lay::$Dst<Term> as From<$lay::$Src<Term>>>::from(src); let mut o = <$lay::$Dst<Term> as MatIO<Term, $nd>>::decode(&d); for r in o.iter_mut() { for x in r.iter_mut() { *x = simp(*x); } } o });
+        let mut want = [[Term::cst(0); $nd]; $nd];
+        for i in 0..$nd { for j in 0..$nd { want[i][j] = if i < $ns && j < $ns { a[i][j] } else if i == j { Term::cst(1) } else { Term::cst(0) }; } }
+        chk(s, &site, "wrong-routing-on-special-elements", &inp, got, &want, t.iter().any(|&c| c != 0), t.iter().sum::<usize>() as u64);
+    });
+}}}
+fn sec_observable(s: &Section) {
+    s.require_classes(&["all-generators", "contains-zero", "contains-one", "contains-full", "all-zero"]);
+    let (z, o, fu) = (Term::cst(0), Term::cst(1), Term::cst(255));
+    let run = |site: &str, n: usize, f: &dyn Fn(&[Term]) -> Vec<Term>, want: &dyn Fn(&[Term]) -> Vec<Term>| {
+        let site = format!("{} on observable elements", site);
+        term_cases(n, 4, |e, t| {
+            obs_class(s, t);
+            let inp = || json!({"elements": jd(&e)});
+            let structural = site.contains("average_rgb");
+            let norm = |v: Vec<Term>| -> Vec<Term> { if structural { v } else { v.into_iter().map(simp).collect() } };
+            let got = s.call(&site, inp, || norm(f(e)));
+            chk(s, &site, "wrong-routing-on-special-elements", &inp, got, &norm(want(e)), t.iter().any(|&c| c != 0), t.iter().sum::<usize>() as u64);
+            if s.wants_sample() && t.iter().filter(|&&c| c == 1).count() == 2 && n == 3 { s.sample(json!({"call": site, "elements": jd(&e), "must_be": jd(&want(e))})); }
+        });
+    };
+    let t2 = |e: &[Term]| Vec2 { x: e[0], y: e[1] };
+    let t3 = |e: &[Term]| Vec3 { x: e[0], y: e[1], z: e[2] };
+    let t4 = |e: &[Term]| Vec4 { x: e[0], y: e[1], z: e[2], w: e[3] };
+    let c3 = |e: &[Term]| Rgb { r: e[0], g: e[1], b: e[2] };
+    // T: Zero
+    run("From<Vec2> for Vec3", 2, &|e| dv3(&Vec3::from(t2(e))).to_vec(), &|e| vec![e[0], e[1], z]);
+    run("From<Vec2> for Vec4", 2, &|e| dv4(&Vec4::from(t2(e))).to_vec(), &|e| vec![e[0], e[1], z, z]);
+    run("From<Vec3> for Vec4", 3, &|e| dv4(&Vec4::from(t3(e))).to_vec(), &|e| vec![e[0], e[1], e[2], z]);
+    run("Vec2::with_w", 3, &|e| dv4(&t2(e).with_w(e[2])).to_vec(), &|e| vec![e[0], e[1], z, e[2]]);
+    run("Vec4::new_direction", 3, &|e| dv4(&Vec4::new_direction(e[0], e[1], e[2])).to_vec(), &|e| vec![e[0], e[1], e[2], z]);
+    run("Vec4::from_direction(Vec3)", 3, &|e| dv4(&Vec4::from_direction(t3(e))).to_vec(), &|e| vec![e[0], e[1], e[2], z]);
+    run("Vec4::from_direction(Vec2)", 2, &|e| dv4(&Vec4::from_direction(t2(e))).to_vec(), &|e| vec![e[0], e[1], z, z]);
+    run("Vec4::from_direction(Vec4)", 4, &|e| dv4(&Vec4::from_direction(t4(e))).to_vec(), &|e| vec![e[0], e[1], e[2], z]);
+    run("Vec3::new_direction_2d", 2, &|e| dv3(&Vec3::new_direction_2d(e[0], e[1])).to_vec(), &|e| vec![e[0], e[1], z]);
+    run("Vec3::from_direction_2d(Vec2)", 2, &|e| dv3(&Vec3::from_direction_2d(t2(e))).to_vec(), &|e| vec![e[0], e[1], z]);
+    run("Vec3::from_direction_2d(Vec3)", 3, &|e| dv3(&Vec3::from_direction_2d(t3(e))).to_vec(), &|e| vec![e[0], e[1], z]);
+    run("Vec3::from_direction_2d(Vec4)", 4, &|e| dv3(&Vec3::from_direction_2d(t4(e))).to_vec(), &|e| vec![e[0], e[1], z]);
+    // T: One (+ Zero through Into)
+    run("Vec4::new_point", 3, &|e| dv4(&Vec4::new_point(e[0], e[1], e[2])).to_vec(), &|e| vec![e[0], e[1], e[2], o]);
+    run("Vec4::from_point(Vec3)", 3, &|e| dv4(&Vec4::from_point(t3(e))).to_vec(), &|e| vec![e[0], e[1], e[2], o]);
+    run("Vec4::from_point(Vec2)", 2, &|e| dv4(&Vec4::from_point(t2(e))).to_vec(), &|e| vec![e[0], e[1], z, o]);
+    run("Vec4::from_point(Vec4)", 4, &|e| dv4(&Vec4::from_point(t4(e))).to_vec(), &|e| vec![e[0], e[1], e[2], o]);
+    run("Vec3::new_point_2d", 2, &|e| dv3(&Vec3::new_point_2d(e[0], e[1])).to_vec(), &|e| vec![e[0], e[1], o]);
+    run("Vec3::from_point_2d(Vec2)", 2, &|e| dv3(&Vec3::from_point_2d(t2(e))).to_vec(), &|e| vec![e[0], e[1], o]);
+    run("Vec3::from_point_2d(Vec3)", 3, &|e| dv3(&Vec3::from_point_2d(t3(e))).to_vec(), &|e| vec![e[0], e[1], o]);
+    run("Vec3::from_point_2d(Vec4)", 4, &|e| dv3(&Vec3::from_point_2d(t4(e))).to_vec(), &|e| vec![e[0], e[1], o]);
+    // T: ColorComponent (: Zero)
+    run("From<Rgb> for Rgba", 3, &|e| drgba(Rgba::from(c3(e))).to_vec(), &|e| vec![e[0], e[1], e[2], fu]);
+    run("Rgba::new_opaque", 3, &|e| drgba(Rgba::new_opaque(e[0], e[1], e[2])).to_vec(), &|e| vec![e[0], e[1], e[2], fu]);
+    run("Rgba::new_transparent", 3, &|e| drgba(Rgba::new_transparent(e[0], e[1], e[2])).to_vec(), &|e| vec![e[0], e[1], e[2], z]);
+    run("Rgba::from_opaque", 3, &|e| drgba(Rgba::from_opaque(c3(e))).to_vec(), &|e| vec![e[0], e[1], e[2], fu]);
+    run("Rgba::from_transparent", 3, &|e| drgba(Rgba::from_transparent(c3(e))).to_vec(), &|e| vec![e[0], e[1], e[2], z]);
+    run("Rgb::gray", 1, &|e| drgb(Rgb::gray(e[0])).to_vec(), &|e| vec![e[0]; 3]);
+    run("Rgb::grey", 1, &|e| drgb(Rgb::grey(e[0])).to_vec(), &|e| vec![e[0]; 3]);
+    run("Rgba::gray", 1, &|e| drgba(Rgba::gray(e[0])).to_vec(), &|e| vec![e[0], e[0], e[0], fu]);
+    run("Rgba::grey", 1, &|e| drgba(Rgba::grey(e[0])).to_vec(), &|e| vec![e[0], e[0], e[0], fu]);
+    // the arithmetic helpers, structurally: exactly `full() - c` per channel (alpha untouched), and
+    // (r + g + b) / 3 with the sum in any association -- for every element type at once
+    let sub = |c: Term| Term::bin("sub", fu, c);
+    run("Rgba::inverted_rgb (term structure)", 4, &|e| drgba(Rgba { r: e[0], g: e[1], b: e[2], a: e[3] }.inverted_rgb()).to_vec(), &|e| vec![sub(e[0]), sub(e[1]), sub(e[2]), e[3]]);
+    run("Rgb::inverted_rgb (term structure)", 3, &|e| drgb(c3(e).inverted_rgb()).to_vec(), &|e| vec![sub(e[0]), sub(e[1]), sub(e[2])]);
+    let avg_shape = |t: Term| -> Vec<Term> { match t.node() { Node::Bin("div", num, den) => { let mut v = num.ac_leaves("add"); v.push(den); v } _ => vec![t] } };
+    let avg_want = |e: &[Term]| -> Vec<Term> { let mut v = vec![e[0], e[1], e[2]]; v.sort(); v.push(Term::cst(3)); v };
+    run("Rgba::average_rgb (term structure)", 4, &|e| avg_shape(Rgba { r: e[0], g: e[1], b: e[2], a: e[3] }.average_rgb()), &|e| avg_want(e));
+    run("Rgb::average_rgb (term structure)", 3, &|e| avg_shape(c3(e).average_rgb()), &|e| avg_want(e));
+    // growing matrix conversions (T: Zero + One), both layouts; entries over {generator, 0, 1} (thorough: also 255)
+    let ch = if s.thorough() { 4 } else { 3 };
+    matobs!(s, 4, rm, "row", Mat3 3 <- Mat2 2); matobs!(s, 4, cm, "col", Mat3 3 <- Mat2 2);
+    matobs!(s, 4, rm, "row", Mat4 4 <- Mat2 2); matobs!(s, 4, cm, "col", Mat4 4 <- Mat2 2);
+    matobs!(s, ch, rm, "row", Mat4 4 <- Mat3 3); matobs!(s, ch, cm, "col", Mat4 4 <- Mat3 3);
+    s.meta("element_alphabet_per_position", json!(["own generator v_i", "0 (is_zero)", "1", "255 (full)"]));
+}
+
+// =================================================================================================
+// 10. (added by the audit) generic `Into<..>` argument forms, call sequences, concrete unit vectors
+// =================================================================================================
+fn sec_into_forms(s: &Section) {
+    s.require_classes(&["colour-from-other-kind", "colour-from-tuple-or-array", "colour-from-scalar", "homogeneous-from-other-kind", "homogeneous-from-tuple-or-array", "homogeneous-from-scalar"]);
+    let e = [Sym(2), Sym(3), Sym(4), Sym(5)];
+    let op = Sym(9);
+    let case = |site: &str, class: &str, f: &dyn Fn() -> Vec<Sym>, want: Vec<Sym>| {
+        s.class(class);
+        let inp = || json!({"elements": jd(&e), "opacity": jd(&op)});
+        let got = s.call(site, inp, f);
+        chk_sym(s, site, "wrong-routing", &inp, got, &want, true, 0);
+        if s.wants_sample() && class.ends_with("other-kind") { s.sample(json!({"call": site, "elements": jd(&e), "must_be": jd(&want)})); }
+    };
+    let v3 = Vec3 { x: e[0], y: e[1], z: e[2] };
+    let c4 = Rgba { r: e[0], g: e[1], b: e[2], a: e[3] };
+    let (k, k2) = ("colour-from-other-kind", "colour-from-tuple-or-array");
+    // V: Into<Rgb<T>>: a Vec3 is taken as is, an Rgba loses its alpha first (which is then replaced)
+    case("Rgba::from_opaque(Vec3)", k, &|| drgba(Rgba::from_opaque(v3)).to_vec(), vec![e[0], e[1], e[2], FULL]);
+    case("Rgba::from_opaque(Rgba)", k, &|| drgba(Rgba::from_opaque(c4)).to_vec(), vec![e[0], e[1], e[2], FULL]);
+    case("Rgba::from_transparent(Vec3)", k, &|| drgba(Rgba::from_transparent(v3)).to_vec(), vec![e[0], e[1], e[2], ZERO]);
+    case("Rgba::from_transparent(Rgba)", k, &|| drgba(Rgba::from_transparent(c4)).to_vec(), vec![e[0], e[1], e[2], ZERO]);
+    case("Rgba::from_translucent(Vec3)", k, &|| drgba(Rgba::from_translucent(v3, op)).to_vec(), vec![e[0], e[1], e[2], op]);
+    case("Rgba::from_translucent(Rgba)", k, &|| drgba(Rgba::from_translucent(c4, op)).to_vec(), vec![e[0], e[1], e[2], op]);
+    case("Rgba::from_opaque((r,g,b))", k2, &|| drgba(Rgba::from_opaque((e[0], e[1], e[2]))).to_vec(), vec![e[0], e[1], e[2], FULL]);
+    case("Rgba::from_opaque([r,g,b])", k2, &|| drgba(Rgba::from_opaque([e[0], e[1], e[2]])).to_vec(), vec![e[0], e[1], e[2], FULL]);
+    case("Rgba::from_transparent((r,g,b))", k2, &|| drgba(Rgba::from_transparent((e[0], e[1], e[2]))).to_vec(), vec![e[0], e[1], e[2], ZERO]);
+    case("Rgba::from_translucent([r,g,b])", k2, &|| drgba(Rgba::from_translucent([e[0], e[1], e[2]], op)).to_vec(), vec![e[0], e[1], e[2], op]);
+    case("Rgba::from_opaque(scalar)", "colour-from-scalar", &|| drgba(Rgba::from_opaque(e[0])).to_vec(), vec![e[0], e[0], e[0], FULL]);
+    case("Rgba::from_translucent(scalar)", "colour-from-scalar", &|| drgba(Rgba::from_translucent(e[0], op)).to_vec(), vec![e[0], e[0], e[0], op]);
+    // V: Into<Vec3<T>> / Into<Vec2<T>>
+    let (h, h2) = ("homogeneous-from-other-kind", "homogeneous-from-tuple-or-array");
+    let x3 = Extent3 { w: e[0], h: e[1], d: e[2] };
+    let x2 = Extent2 { w: e[0], h: e[1] };
+    let rgb = Rgb { r: e[0], g: e[1], b: e[2] };
+    let uvw = Uvw { u: e[0], v: e[1], w: e[2] };
+    case("Vec4::from_point(Extent3)", h, &|| dv4(&Vec4::from_point(x3)).to_vec(), vec![e[0], e[1], e[2], ONE]);
+    case("Vec4::from_direction(Extent3)", h, &|| dv4(&Vec4::from_direction(x3)).to_vec(), vec![e[0], e[1], e[2], ZERO]);
+    case("Vec4::from_point(Rgb)", h, &|| dv4(&Vec4::from_point(rgb)).to_vec(), vec![e[0], e[1], e[2], ONE]);
+    case("Vec4::from_direction(Rgb)", h, &|| dv4(&Vec4::from_direction(rgb)).to_vec(), vec![e[0], e[1], e[2], ZERO]);
+    case("Vec4::from_point(Uvw)", h, &|| dv4(&Vec4::from_point(uvw)).to_vec(), vec![e[0], e[1], e[2], ONE]);
+    case("Vec4::from_direction(Uvw)", h, &|| dv4(&Vec4::from_direction(uvw)).to_vec(), vec![e[0], e[1], e[2], ZERO]);
+    case("Vec3::from_point_2d(Extent2)", h, &|| dv3(&Vec3::from_point_2d(x2)).to_vec(), vec![e[0], e[1], ONE]);
+    case("Vec3::from_direction_2d(Extent2)", h, &|| dv3(&Vec3::from_direction_2d(x2)).to_vec(), vec![e[0], e[1], ZERO]);
+    case("Vec4::from_point((x,y,z))", h2, &|| dv4(&Vec4::from_point((e[0], e[1], e[2]))).to_vec(), vec![e[0], e[1], e[2], ONE]);
+    case("Vec4::from_direction([x,y,z])", h2, &|| dv4(&Vec4::from_direction([e[0], e[1], e[2]])).to_vec(), vec![e[0], e[1], e[2], ZERO]);
+    case("Vec4::from_point(((x,y),z) via (Vec2,T))", h2, &|| dv4(&Vec4::from_point((Vec2 { x: e[0], y: e[1] }, e[2]))).to_vec(), vec![e[0], e[1], e[2], ONE]);
+    case("Vec3::from_point_2d((x,y))", h2, &|| dv3(&Vec3::from_point_2d((e[0], e[1]))).to_vec(), vec![e[0], e[1], ONE]);
+    case("Vec3::from_direction_2d([x,y])", h2, &|| dv3(&Vec3::from_direction_2d([e[0], e[1]])).to_vec(), vec![e[0], e[1], ZERO]);
+    case("Vec4::from_point(scalar)", "homogeneous-from-scalar", &|| dv4(&Vec4::from_point(e[0])).to_vec(), vec![e[0], e[0], e[0], ONE]);
+    case("Vec3::from_direction_2d(scalar)", "homogeneous-from-scalar", &|| dv3(&Vec3::from_direction_2d(e[0])).to_vec(), vec![e[0], e[0], ZERO]);
+}
+
+macro_rules! matchain { ($s:expr, $lay:ident, $ls:expr) => {{
+    let s: &Section = $s;
+    type M2 = $lay::Mat2<Sym>; type M3 = $lay::Mat3<Sym>; type M4 = $lay::Mat4<Sym>;
+    let sym = |i: usize, j: usize| Sym((10 * (i + 1) + j + 1) as u16);
+    let mut a2 = [[ZERO; 2]; 2]; let mut a3 = [[ZERO; 3]; 3]; let mut a4 = [[ZERO; 4]; 4];
+    for i in 0..4 { for j in 0..4 { a4[i][j] = sym(i, j); if i < 3 && j < 3 { a3[i][j] = sym(i, j); } if i < 2 && j < 2 { a2[i][j] = sym(i, j); } } }
+    let (m2, m3, m4) = (<M2 as MatIO<Sym, 2>>::build(&a2), <M3 as MatIO<Sym, 3>>::build(&a3), <M4 as MatIO<Sym, 4>>::build(&a4));
+    let emb4 = |n: usize| { let mut w = [[ZERO; 4]; 4]; for i in 0..4 { for j in 0..4 { w[i][j] = if i < n && j < n { sym(i, j) } else if i == j { ONE } else { ZERO }; } } w };
+    let inp = || json!({"entry (i,j)": "s<10(i+1)+j+1>"});
+    let site = |n: &str| format!("{} ({}-major)", n, $ls);
+    s.class("matrix-chain");
+    chk_sym(s, &site("Mat4::from(Mat3::from(Mat2))"), "chain-differs-from-direct-embedding", &inp, s.call("chain", inp, || { let c = M4::from(M3::from(m2)); (<M4 as MatIO<Sym, 4>>::decode(&c), c == M4::from(m2)) }), &(emb4(2), true), true, 0);
+    s.class("matrix-chain");
+    chk_sym(s, &site("Mat2::from(Mat3::from(Mat4))"), "chain-differs-from-direct-truncation", &inp, s.call("chain", inp, || { let c = M2::from(M3::from(m4)); (<M2 as MatIO<Sym, 2>>::decode(&c), c == M2::from(m4)) }), &(a2, true), true, 0);
+    s.class("matrix-round-trip");
+    chk_sym(s, &site("Mat2::from(Mat3::from(Mat2))"), "shrink-after-grow-not-identity", &inp, s.call("rt", inp, || <M2 as MatIO<Sym, 2>>::decode(&M2::from(M3::from(m2)))), &a2, true, 0);
+    s.class("matrix-round-trip");
+    chk_sym(s, &site("Mat2::from(Mat4::from(Mat2))"), "shrink-after-grow-not-identity", &inp, s.call("rt", inp, || <M2 as MatIO<Sym, 2>>::decode(&M2::from(M4::from(m2)))), &a2, true, 0);
+    s.class("matrix-round-trip");
+    chk_sym(s, &site("Mat3::from(Mat4::from(Mat3))"), "shrink-after-grow-not-identity", &inp, s.call("rt", inp, || <M3 as MatIO<Sym, 3>>::decode(&M3::from(M4::from(m3)))), &a3, true, 0);
+    s.class("matrix-grow-after-shrink");
+    chk_sym(s, &site("Mat4::from(Mat3::from(Mat4))"), "grow-after-shrink-not-block-plus-identity", &inp, s.call("gs", inp, || <M4 as MatIO<Sym, 4>>::decode(&M4::from(M3::from(m4)))), &emb4(3), true, 0);
+    s.class("matrix-grow-after-shrink");
+    chk_sym(s, &site("Mat4::from(Mat2::from(Mat4))"), "grow-after-shrink-not-block-plus-identity", &inp, s.call("gs", inp, || <M4 as MatIO<Sym, 4>>::decode(&M4::from(M2::from(m4)))), &emb4(2), true, 0);
+}}}
+fn sec_chains(s: &Section) {
+    s.require_classes(&["grow-chain", "shrink-after-grow", "grow-after-shrink", "kind-round-trip", "cross-kind-chain", "setter-sequence", "matrix-chain", "matrix-round-trip", "matrix-grow-after-shrink"]);
+    let e = [Sym(2), Sym(3), Sym(4), Sym(5)];
+    let sc = Sym(99);
+    let v2 = Vec2 { x: e[0], y: e[1] };
+    let v3 = Vec3 { x: e[0], y: e[1], z: e[2] };
+    let v4 = Vec4 { x: e[0], y: e[1], z: e[2], w: e[3] };
+    let x2 = Extent2 { w: e[0], h: e[1] };
+    let x3 = Extent3 { w: e[0], h: e[1], d: e[2] };
+    let c3 = Rgb { r: e[0], g: e[1], b: e[2] };
+    let c4 = Rgba { r: e[0], g: e[1], b: e[2], a: e[3] };
+    let t3 = Uvw { u: e[0], v: e[1], w: e[2] };
+    let case = |site: &str, class: &str, f: &dyn Fn() -> Vec<Sym>, want: Vec<Sym>| {
+        s.class(class);
+        let inp = || json!({"elements": jd(&e), "scalar": jd(&sc)});
+        let got = s.call(site, inp, f);
+        chk_sym(s, site, "wrong-routing", &inp, got, &want, true, 0);
+        if s.wants_sample() && class == "cross-kind-chain" { s.sample(json!({"chain": site, "elements": jd(&e), "must_be": jd(&want)})); }
+    };
+    let (a, b, c, d) = (e[0], e[1], e[2], e[3]);
+    case("Vec4::<Sym>::from(Vec3::<Sym>::from(Vec2))", "grow-chain", &|| dv4(&Vec4::<Sym>::from(Vec3::<Sym>::from(v2))).to_vec(), vec![a, b, ZERO, ZERO]);
+    case("Vec4::<Sym>::from((Vec3::<Sym>::from((Vec2, s)), s'))", "grow-chain", &|| dv4(&Vec4::<Sym>::from((Vec3::<Sym>::from((v2, sc)), d))).to_vec(), vec![a, b, sc, d]);
+    case("Vec4::<Sym>::from(Vec3::<Sym>::from((Vec2, s)))", "grow-chain", &|| dv4(&Vec4::<Sym>::from(Vec3::<Sym>::from((v2, sc)))).to_vec(), vec![a, b, sc, ZERO]);
+    case("Vec2::with_z(s).with_w(s')", "grow-chain", &|| dv4(&v2.with_z(sc).with_w(d)).to_vec(), vec![a, b, sc, d]);
+    case("Vec2::<Sym>::from(Vec3::<Sym>::from(Vec2))", "shrink-after-grow", &|| dv2(&Vec2::<Sym>::from(Vec3::<Sym>::from(v2))).to_vec(), vec![a, b]);
+    case("Vec2::<Sym>::from(Vec4::<Sym>::from(Vec2))", "shrink-after-grow", &|| dv2(&Vec2::<Sym>::from(Vec4::<Sym>::from(v2))).to_vec(), vec![a, b]);
+    case("Vec3::<Sym>::from(Vec4::<Sym>::from(Vec3))", "shrink-after-grow", &|| dv3(&Vec3::<Sym>::from(Vec4::<Sym>::from(v3))).to_vec(), vec![a, b, c]);
+    case("Vec3::<Sym>::from(Vec4::<Sym>::from((Vec3, s)))", "shrink-after-grow", &|| dv3(&Vec3::<Sym>::from(Vec4::<Sym>::from((v3, sc)))).to_vec(), vec![a, b, c]);
+    case("Vec3::<Sym>::from(Vec4::<Sym>::from_point(Vec3))", "shrink-after-grow", &|| dv3(&Vec3::<Sym>::from(Vec4::<Sym>::from_point(v3))).to_vec(), vec![a, b, c]);
+    case("Vec2::<Sym>::from(Vec3::<Sym>::from_point_2d(Vec2))", "shrink-after-grow", &|| dv2(&Vec2::<Sym>::from(Vec3::<Sym>::from_point_2d(v2))).to_vec(), vec![a, b]);
+    case("Rgb::<Sym>::from(Rgba::<Sym>::from((Rgb, s)))", "shrink-after-grow", &|| drgb(Rgb::<Sym>::from(Rgba::<Sym>::from((c3, sc)))).to_vec(), vec![a, b, c]);
+    case("Rgba::rgb of Rgba::<Sym>::from(Rgb)", "shrink-after-grow", &|| drgb(Rgba::<Sym>::from(c3).rgb()).to_vec(), vec![a, b, c]);
+    case("Vec4::<Sym>::from(Vec3::<Sym>::from(Vec4))", "grow-after-shrink", &|| dv4(&Vec4::<Sym>::from(Vec3::<Sym>::from(v4))).to_vec(), vec![a, b, c, ZERO]);
+    case("Vec4::<Sym>::from(Vec2::<Sym>::from(Vec4))", "grow-after-shrink", &|| dv4(&Vec4::<Sym>::from(Vec2::<Sym>::from(v4))).to_vec(), vec![a, b, ZERO, ZERO]);
+    case("Vec3::<Sym>::from(Vec2::<Sym>::from(Vec3))", "grow-after-shrink", &|| dv3(&Vec3::<Sym>::from(Vec2::<Sym>::from(v3))).to_vec(), vec![a, b, ZERO]);
+    case("Rgba::<Sym>::from(Rgb::<Sym>::from(Rgba))", "grow-after-shrink", &|| drgba(Rgba::<Sym>::from(Rgb::<Sym>::from(c4))).to_vec(), vec![a, b, c, FULL]);
+    case("Vec4::xyz().with_w(s)", "grow-after-shrink", &|| dv4(&v4.xyz().with_w(sc)).to_vec(), vec![a, b, c, sc]);
+    case("Vec4::xy().with_w(s)", "grow-after-shrink", &|| dv4(&v4.xy().with_w(sc)).to_vec(), vec![a, b, ZERO, sc]);
+    case("Vec2::<Sym>::from(Extent2::<Sym>::from(Vec2))", "kind-round-trip", &|| dv2(&Vec2::<Sym>::from(Extent2::<Sym>::from(v2))).to_vec(), vec![a, b]);
+    case("Extent2::<Sym>::from(Vec2::<Sym>::from(Extent2))", "kind-round-trip", &|| { let r = Extent2::<Sym>::from(Vec2::<Sym>::from(x2)); vec![r.w, r.h] }, vec![a, b]);
+    case("Vec3::<Sym>::from(Extent3::<Sym>::from(Vec3))", "kind-round-trip", &|| dv3(&Vec3::<Sym>::from(Extent3::<Sym>::from(v3))).to_vec(), vec![a, b, c]);
+    case("Extent3::<Sym>::from(Vec3::<Sym>::from(Extent3))", "kind-round-trip", &|| { let r = Extent3::<Sym>::from(Vec3::<Sym>::from(x3)); vec![r.w, r.h, r.d] }, vec![a, b, c]);
+    case("Vec3::<Sym>::from(Rgb::<Sym>::from(Vec3))", "kind-round-trip", &|| dv3(&Vec3::<Sym>::from(Rgb::<Sym>::from(v3))).to_vec(), vec![a, b, c]);
+    case("Rgb::<Sym>::from(Vec3::<Sym>::from(Rgb))", "kind-round-trip", &|| drgb(Rgb::<Sym>::from(Vec3::<Sym>::from(c3))).to_vec(), vec![a, b, c]);
+    case("Vec3::<Sym>::from(Uvw::<Sym>::from(Vec3))", "kind-round-trip", &|| dv3(&Vec3::<Sym>::from(Uvw::<Sym>::from(v3))).to_vec(), vec![a, b, c]);
+    case("Uvw::<Sym>::from(Vec3::<Sym>::from(Uvw))", "kind-round-trip", &|| { let r = Uvw::<Sym>::from(Vec3::<Sym>::from(t3)); vec![r.u, r.v, r.w] }, vec![a, b, c]);
+    case("Vec4::<Sym>::from(Rgba::<Sym>::from(Vec4))", "kind-round-trip", &|| dv4(&Vec4::<Sym>::from(Rgba::<Sym>::from(v4))).to_vec(), vec![a, b, c, d]);
+    case("Rgba::<Sym>::from(Vec4::<Sym>::from(Rgba))", "kind-round-trip", &|| drgba(Rgba::<Sym>::from(Vec4::<Sym>::from(c4))).to_vec(), vec![a, b, c, d]);
+    case("Extent3::<Sym>::from(Vec3::<Sym>::from(Rgb))", "cross-kind-chain", &|| { let r = Extent3::<Sym>::from(Vec3::<Sym>::from(c3)); vec![r.w, r.h, r.d] }, vec![a, b, c]);
+    case("Uvw::<Sym>::from(Vec3::<Sym>::from(Vec2::<Sym>::from(Extent2)))", "cross-kind-chain", &|| { let r = Uvw::<Sym>::from(Vec3::<Sym>::from(Vec2::<Sym>::from(x2))); vec![r.u, r.v, r.w] }, vec![a, b, ZERO]);
+    case("Rgba::<Sym>::from(Vec4::<Sym>::from(Vec2::<Sym>::from(Extent2)))", "cross-kind-chain", &|| drgba(Rgba::<Sym>::from(Vec4::<Sym>::from(Vec2::<Sym>::from(x2)))).to_vec(), vec![a, b, ZERO, ZERO]);
+    case("Rgb::<Sym>::from(Vec3::<Sym>::from(Vec4::<Sym>::from(Rgba)))", "cross-kind-chain", &|| drgb(Rgb::<Sym>::from(Vec3::<Sym>::from(Vec4::<Sym>::from(c4)))).to_vec(), vec![a, b, c]);
+    case("Uv::<Sym>::from(Vec2::<Sym>::from(Vec3::<Sym>::from(Uvw)))", "cross-kind-chain", &|| { let r = Uv::<Sym>::from(Vec2::<Sym>::from(Vec3::<Sym>::from(t3))); vec![r.u, r.v] }, vec![a, b]);
+    case("Extent3::<Sym>::from((Extent2::<Sym>::from(Vec2::<Sym>::from(Vec4)), s))", "cross-kind-chain", &|| { let r = Extent3::<Sym>::from((Extent2::<Sym>::from(Vec2::<Sym>::from(v4)), sc)); vec![r.w, r.h, r.d] }, vec![a, b, sc]);
+    case("Rgba::<Sym>::from(Vec4::<Sym>::from_point(Vec3::<Sym>::from(Rgb)))", "cross-kind-chain", &|| drgba(Rgba::<Sym>::from(Vec4::<Sym>::from_point(Vec3::<Sym>::from(c3)))).to_vec(), vec![a, b, c, ONE]);
+    // setter / swizzle sequences: later calls act on the result of earlier ones
+    let (n1, n2) = (Sym(9), Sym(8));
+    case("Vec4::with_x(n).with_x(m)", "setter-sequence", &|| dv4(&v4.with_x(n1).with_x(n2)).to_vec(), vec![n2, b, c, d]);
+    case("Vec4::with_x(n).with_w(m).with_y(n)", "setter-sequence", &|| dv4(&v4.with_x(n1).with_w(n2).with_y(n1)).to_vec(), vec![n1, n1, c, n2]);
+    case("Vec4::with_z(n).wzyx().with_z(m).wxyz()", "setter-sequence", &|| dv4(&v4.with_z(n1).wzyx().with_z(n2).wxyz()).to_vec(), vec![a, d, n1, n2]);
+    case("Vec3::with_y(n).zyx().with_x(m).xy()", "setter-sequence", &|| dv2(&v3.with_y(n1).zyx().with_x(n2).xy()).to_vec(), vec![n2, n1]);
+    case("Vec2::with_y(n).yx().with_y(m)", "setter-sequence", &|| dv2(&v2.with_y(n1).yx().with_y(n2)).to_vec(), vec![n1, n2]);
+    case("Vec4::wxyz() four times", "setter-sequence", &|| dv4(&v4.wxyz().wxyz().wxyz().wxyz()).to_vec(), vec![a, b, c, d]);
+    case("Vec4::zyxw().wzyx().wxyz()", "setter-sequence", &|| dv4(&v4.zyxw().wzyx().wxyz()).to_vec(), vec![c, d, a, b]);
+    case("Rgba::shuffled_argb().shuffled_bgra()", "setter-sequence", &|| drgba(c4.shuffled_argb().shuffled_bgra()).to_vec(), vec![b, a, d, c]);
+    case("Rgba::shuffled_bgra().rgb().shuffled_bgr()", "setter-sequence", &|| drgb(c4.shuffled_bgra().rgb().shuffled_bgr()).to_vec(), vec![a, b, c]);
+    matchain!(s, rm, "row");
+    matchain!(s, cm, "col");
+}
+
+/// two shuffles in sequence: the second acts on the lanes produced by the first (all 256 x 256 mask pairs)
+macro_rules! shuffle_seq { ($s:expr, $V:ident ($x:ident $y:ident $z:ident $w:ident)) => {{
+    let s: &Section = $s;
+    let vn = stringify!($V);
+    let l = [Sym(10), Sym(11), Sym(12), Sym(13)];
+    let h = [Sym(20), Sym(21), Sym(22), Sym(23)];
+    let lo = $V { $x: l[0], $y: l[1], $z: l[2], $w: l[3] };
+    let hi = $V { $x: h[0], $y: h[1], $z: h[2], $w: h[3] };
+    let dec = |v: $V<Sym>| [v.$x, v.$y, v.$z, v.$w];
+    let idx: Vec<usize> = (0..256).collect();
+    let (site1, site2) = (format!("{}::shuffled then shuffled", vn), format!("{}::shuffled both then shuffle_lo_hi", vn));
+    let (mut n, mut perm) = (0u64, 0u64);
+    for &i in &idx { for &j in &idx {
+        let p = [i & 3, (i >> 2) & 3, (i >> 4) & 3, (i >> 6) & 3];
+        let q = [j & 3, (j >> 2) & 3, (j >> 4) & 3, (j >> 6) & 3];
+        let inp = || json!({"lo": jd(&l), "hi": jd(&h), "first": p, "second": q});
+        let wt = (p.iter().sum::<usize>() + q.iter().sum::<usize>()) as u64;
+        let nt = i != 0xE4 || j != 0xE4; // 0xE4 = (0,1,2,3)
+        chk_sym(s, &site1, "second-shuffle-does-not-act-on-first-result", &inp, s.call(&site1, inp, || dec(lo.shuffled((p[0], p[1], p[2], p[3])).shuffled([q[0], q[1], q[2], q[3]]))), &[l[p[q[0]]], l[p[q[1]]], l[p[q[2]]], l[p[q[3]]]], nt, wt);
+        chk_sym(s, &site2, "second-shuffle-does-not-act-on-first-result", &inp, s.call(&site2, inp, || dec($V::shuffle_lo_hi(lo.shuffled((p[0], p[1], p[2], p[3])), hi.shuffled((p[0], p[1], p[2], p[3])), ShuffleMask4::new(q[0], q[1], q[2], q[3])))), &[l[p[q[0]]], l[p[q[1]]], h[p[q[2]]], h[p[q[3]]]], nt, wt);
+        n += 1;
+        let mut sp = p; sp.sort(); let mut sq = q; sq.sort();
+        if sp == [0, 1, 2, 3] && sq == [0, 1, 2, 3] { perm += 1; }
+    } }
+    s.class_n("mask-pair", n); s.class_n("permutation-pair", perm);
+    // the fixed helpers expressed through the general shuffle, on the result of a previous shuffle
+    let a0 = lo.shuffled((3, 0, 2, 1)); let b0 = hi.shuffled((1, 3, 0, 2));
+    let (la, lb) = ([l[3], l[0], l[2], l[1]], [h[1], h[3], h[0], h[2]]);
+    let inp = || json!({"a": jd(&la), "b": jd(&lb)});
+    let fixed = |name: &str, f: &dyn Fn() -> [Sym; 4], want: [Sym; 4]| { s.class("helper-after-shuffle"); let site = format!("{}::{} after shuffled", vn, name); chk_sym(s, &site, "wrong-lanes", &inp, s.call(&site, inp, f), &want, true, 0); };
+    fixed("interleave_0011", &|| dec($V::interleave_0011(a0, b0)), [la[0], lb[0], la[1], lb[1]]);
+    fixed("interleave_2233", &|| dec($V::interleave_2233(a0, b0)), [la[2], lb[2], la[3], lb[3]]);
+    fixed("shuffle_lo_hi_0101", &|| dec($V::shuffle_lo_hi_0101(a0, b0)), [la[0], la[1], lb[0], lb[1]]);
+    fixed("shuffle_hi_lo_2323", &|| dec($V::shuffle_hi_lo_2323(a0, b0)), [lb[2], lb[3], la[2], la[3]]);
+    fixed("shuffled_0101", &|| dec(a0.shuffled_0101()), [la[0], la[1], la[0], la[1]]);
+    fixed("shuffled_2323", &|| dec(a0.shuffled_2323()), [la[2], la[3], la[2], la[3]]);
+    fixed("shuffled_0022", &|| dec(a0.shuffled_0022()), [la[0], la[0], la[2], la[2]]);
+    fixed("shuffled_1133", &|| dec(a0.shuffled_1133()), [la[1], la[1], la[3], la[3]]);
+    // swapped operands: the helpers are not symmetric in (a, b)
+    fixed("interleave_0011 (b,a)", &|| dec($V::interleave_0011(b0, a0)), [lb[0], la[0], lb[1], la[1]]);
+    fixed("shuffle_hi_lo_2323 (b,a)", &|| dec($V::shuffle_hi_lo_2323(b0, a0)), [la[2], la[3], lb[2], lb[3]]);
+    fixed("shuffle_lo_hi_0101 (b,a)", &|| dec($V::shuffle_lo_hi_0101(b0, a0)), [lb[0], lb[1], la[0], la[1]]);
+    fixed("interleave_2233 (b,a)", &|| dec($V::interleave_2233(b0, a0)), [lb[2], la[2], lb[3], la[3]]);
+}}}
+fn sec_shuffle_seq(s: &Section) {
+    s.require_classes(&["mask-pair", "permutation-pair", "helper-after-shuffle"]);
+    shuffle_seq!(s, Vec4 (x y z w));
+    shuffle_seq!(s, Rgba (r g b a));
+}
+
+/// the 40 nullary constructors on machine element types (same table as `sec_units`, which runs them on exact X)
+fn units_concrete<T: num_traits::Zero + num_traits::One + Neg<Output = T> + Copy + PartialEq + Debug + From<i8>>(s: &Section, tn: &str) {
+    s.class(&format!("type:{}", tn));
+    type V2<T> = Vec2<T>; type V3<T> = Vec3<T>; type V4<T> = Vec4<T>;
+    let Some(table): Option<Vec<(&str, Vec<T>, Vec<i8>)>> = s.call(&format!("unit constructors<{}>", tn), || json!({}), || vec![
+        ("Vec2::unit_x", dv2(&V2::<T>::unit_x()).to_vec(), vec![1, 0]), ("Vec2::unit_y", dv2(&V2::<T>::unit_y()).to_vec(), vec![0, 1]),
+        ("Vec2::left", dv2(&V2::<T>::left()).to_vec(), vec![-1, 0]), ("Vec2::right", dv2(&V2::<T>::right()).to_vec(), vec![1, 0]),
+        ("Vec2::up", dv2(&V2::<T>::up()).to_vec(), vec![0, 1]), ("Vec2::down", dv2(&V2::<T>::down()).to_vec(), vec![0, -1]),
+        ("Vec3::unit_x", dv3(&V3::<T>::unit_x()).to_vec(), vec![1, 0, 0]), ("Vec3::unit_y", dv3(&V3::<T>::unit_y()).to_vec(), vec![0, 1, 0]), ("Vec3::unit_z", dv3(&V3::<T>::unit_z()).to_vec(), vec![0, 0, 1]),
+        ("Vec3::left", dv3(&V3::<T>::left()).to_vec(), vec![-1, 0, 0]), ("Vec3::right", dv3(&V3::<T>::right()).to_vec(), vec![1, 0, 0]),
+        ("Vec3::up", dv3(&V3::<T>::up()).to_vec(), vec![0, 1, 0]), ("Vec3::down", dv3(&V3::<T>::down()).to_vec(), vec![0, -1, 0]),
+        ("Vec3::forward_lh", dv3(&V3::<T>::forward_lh()).to_vec(), vec![0, 0, 1]), ("Vec3::forward_rh", dv3(&V3::<T>::forward_rh()).to_vec(), vec![0, 0, -1]),
+        ("Vec3::back_lh", dv3(&V3::<T>::back_lh()).to_vec(), vec![0, 0, -1]), ("Vec3::back_rh", dv3(&V3::<T>::back_rh()).to_vec(), vec![0, 0, 1]),
+        ("Vec4::unit_x", dv4(&V4::<T>::unit_x()).to_vec(), vec![1, 0, 0, 0]), ("Vec4::unit_y", dv4(&V4::<T>::unit_y()).to_vec(), vec![0, 1, 0, 0]),
+        ("Vec4::unit_z", dv4(&V4::<T>::unit_z()).to_vec(), vec![0, 0, 1, 0]), ("Vec4::unit_w", dv4(&V4::<T>::unit_w()).to_vec(), vec![0, 0, 0, 1]),
+        ("Vec4::left", dv4(&V4::<T>::left()).to_vec(), vec![-1, 0, 0, 0]), ("Vec4::right", dv4(&V4::<T>::right()).to_vec(), vec![1, 0, 0, 0]),
+        ("Vec4::up", dv4(&V4::<T>::up()).to_vec(), vec![0, 1, 0, 0]), ("Vec4::down", dv4(&V4::<T>::down()).to_vec(), vec![0, -1, 0, 0]),
+        ("Vec4::forward_lh", dv4(&V4::<T>::forward_lh()).to_vec(), vec![0, 0, 1, 0]), ("Vec4::forward_rh", dv4(&V4::<T>::forward_rh()).to_vec(), vec![0, 0, -1, 0]),
+        ("Vec4::back_lh", dv4(&V4::<T>::back_lh()).to_vec(), vec![0, 0, -1, 0]), ("Vec4::back_rh", dv4(&V4::<T>::back_rh()).to_vec(), vec![0, 0, 1, 0]),
+        ("Vec4::unit_x_point", dv4(&V4::<T>::unit_x_point()).to_vec(), vec![1, 0, 0, 1]), ("Vec4::unit_y_point", dv4(&V4::<T>::unit_y_point()).to_vec(), vec![0, 1, 0, 1]),
+        ("Vec4::unit_z_point", dv4(&V4::<T>::unit_z_point()).to_vec(), vec![0, 0, 1, 1]),
+        ("Vec4::left_point", dv4(&V4::<T>::left_point()).to_vec(), vec![-1, 0, 0, 1]), ("Vec4::right_point", dv4(&V4::<T>::right_point()).to_vec(), vec![1, 0, 0, 1]),
+        ("Vec4::up_point", dv4(&V4::<T>::up_point()).to_vec(), vec![0, 1, 0, 1]), ("Vec4::down_point", dv4(&V4::<T>::down_point()).to_vec(), vec![0, -1, 0, 1]),
+        ("Vec4::forward_point_lh", dv4(&V4::<T>::forward_point_lh()).to_vec(), vec![0, 0, 1, 1]), ("Vec4::forward_point_rh", dv4(&V4::<T>::forward_point_rh()).to_vec(), vec![0, 0, -1, 1]),
+        ("Vec4::back_point_lh", dv4(&V4::<T>::back_point_lh()).to_vec(), vec![0, 0, -1, 1]), ("Vec4::back_point_rh", dv4(&V4::<T>::back_point_rh()).to_vec(), vec![0, 0, 1, 1]),
+    ]) else { return; };
+    if table.len() != 40 { s.rep.machinery_error(format!("units_concrete: table has {} rows, expected 40", table.len())); }
+    for (name, got, want) in table {
+        let want: Vec<T> = want.into_iter().map(T::from).collect();
+        let site = format!("{}<{}>", name, tn);
+        chk(s, &site, "wrong-coordinates", &|| json!({}), Some(got), &want, true, 0);
+    }
+}
 
 fn main() {
     let rep = Report::start("C19", "exploration");
@@ -792,7 +1345,7 @@ fn main() {
         true, true, sec_matconv);
     let extra = if rep.thorough() { 4 } else { 2 };
     rep.section("embedding commutes with multiplication (exact X, simplex lattice)",
-        "for (n,K) in {(2,3),(2,4),(3,4)} and both layouts, all points of L(n^2+n[+1], D) (matrix entries, vector entries and, where a `(VecN, T)` conversion exists, the appended scalar w = small non-negative integers, sum <= D), D = measured degree 2 + 2 (quick) / + 4 (thorough): MatK::from(M)*VecK::from(v) == VecK::from(M*v), the row-vector form, the point forms with from_point / from_point_2d (last coordinate stays 1, for (2,4) z stays 0), and the scalar forms with VecK::from((v,w)) (w kept); each compared real-vs-real (commutation) and against mvec/vmat over arrays padded accordingly; non-trivial: M and v non-zero",
+        "for (n,K) in {(2,3),(2,4),(3,4)} and both layouts, all points of L(n^2+n[+1], D) (matrix entries, vector entries and, where a `(VecN, T)` conversion exists, the appended scalar w = small non-negative integers, sum <= D), D = measured degree 2 + 2 (quick) / + 4 (thorough): MatK::from(M)*VecK::from(v) == VecK::from(M*v), the row-vector form, the point forms with from_point / from_point_2d (last coordinate stays 1, for (2,4) z stays 0), and the scalar forms with VecK::from((v,w)) (w kept), and the direction forms with from_direction / from_direction_2d (last coordinate stays 0); each compared real-vs-real (commutation) and against mvec/vmat over arrays padded accordingly; in addition, beyond what the degree argument needs, the full cube of signed entries {-2,1}^(n^2+n[+1]) (thorough {-3,-1,2}^..) so that negative and mixed-sign matrices, vectors and scalars are run as such; non-trivial: M and v non-zero",
         true, true, |s| sec_commute(s, 2 + extra));
     rep.section("ShuffleMask4 construction",
         "all index 4-tuples over {0..7} u {usize::MAX-3..usize::MAX} (12^4; thorough: 30^4 incl. 8..15, 2^63+k, 2^32+1): new(a,b,c,d).to_indices() == indices mod 4, new(a,b,c,d) == new(a%4,..), From<tuple> and From<array> agree with new; the 256 canonical masks pairwise unequal; From<usize> == new(m,m,m,m); non-trivial: some index >= 4 (all for the inequality and From<usize> parts)",
@@ -810,11 +1363,37 @@ fn main() {
         "for each of the 18 types, Rgb and Rgba: every sweep value in each channel position r,g,b and alpha against fixed other channels (8-bit: every value of the colour range [0,full], i.e. all 256 for u8, 128 for i8; Wrapping<u8>/Wrapping<i8>: all 256 bit patterns; wider ints {0,1,2,mid,MAX-1,MAX} (Wrapping signed also MIN, MIN+1, -2, -1), thorough: all 16-bit values; floats k/256, thorough k/4096) plus the full 4-cube of the boundary alphabet: result channel == full - c computed in i128 (truncated for Wrapping) / exact rationals, alpha unchanged, inverted twice == input; plain signed ints are only given channels in [0, full] (outside it the subtraction overflows, which the property does not cover); non-trivial: not r == g == b",
         true, false, |s| { s.require_classes(&CC_TYPES); s.require_classes(&["sweep-r", "sweep-g", "sweep-b", "sweep-alpha", "boundary-product", "in-colour-range", "outside-colour-range (Wrapping types only)"]); for_all_cc!(colour_inverted, s); });
     rep.section("colour: average_rgb where r+g+b is representable",
-        "for each ColorComponent type on which average_rgb can be called (needs From<u8>: u8,u16,u32,u64,i16,i32,i64,f32,f64 -- not i8, not Wrapping<_>), Rgb and Rgba (3 alphas, ignored): the cube of in-range boundary values, the first 12 sweep values and the fixed channel values; triples whose sum (or partial sum) is not representable are counted and not called (overflow panics are outside the property); ints: == (r+g+b)/3 in i128, truncating; floats: inputs are dyadic so r+g+b is exact and the result must be the correctly rounded quotient (|got - s/3| <= ulp/2, exact rational test); non-trivial: not r == g == b",
-        true, false, |s| { s.require_classes(&AVG_TYPES); s.require_classes(&["sum-representable", "sum-not-representable (not called)"]);
+        "for each ColorComponent type on which average_rgb can be called (needs From<u8>: u8,u16,u32,u64,i16,i32,i64,f32,f64 -- not i8, not Wrapping<_>), Rgb and Rgba (3 alphas, ignored): the cube of in-range boundary values, the first 12 (thorough 40) sweep values, the fixed channel values and, for the plain signed integer types, ten negative values (-1,-2,-4,-5,-7, MIN/3, MIN/3+1, MIN/2, MIN+1, MIN: (r+g+b)/3 truncates towards zero); triples whose sum (or partial sum) is not representable are counted and not called (overflow panics are outside the property); ints: == (r+g+b)/3 in i128, truncating; floats: inputs are dyadic so r+g+b is exact and the result must be the correctly rounded quotient (|got - s/3| <= ulp/2, exact rational test); non-trivial: not r == g == b",
+        true, false, |s| { s.require_classes(&AVG_TYPES); s.require_classes(&["sum-representable", "sum-not-representable (not called)", "negative-channel (plain signed ints)"]);
             colour_average::<u8>(s); colour_average::<u16>(s); colour_average::<u32>(s); colour_average::<u64>(s); colour_average::<i16>(s); colour_average::<i32>(s); colour_average::<i64>(s); colour_average::<f32>(s); colour_average::<f64>(s); });
     rep.section("colour: ARGB/BGRA/BGR reorderings (Sym routing)",
         "shuffled_argb == (a,r,g,b), shuffled_bgra == (b,g,r,a), shuffled_bgr == (b,g,r) on distinct symbols; non-trivial: all",
         true, true, sec_reorder);
+    // ---------------------------------------------------------------- sections added by the clause-by-clause audit
+    rep.section("colour: inverted_rgb and average_rgb on general floats (f32, f64)",
+        "f32 and f64, Rgb and Rgba. inverted_rgb: each channel position r,g,b,alpha swept (others fixed) over k/255 for k = 0..255, decimal fractions (0.1, 0.2, 0.3, 0.7, 0.9, 1/3, 2/3), HDR values (1.5, 2.75, 1e3, 2^24), negative values, tiny values, and the edge values -0, MIN_POSITIVE, the smallest subnormal (both signs), eps, eps/2, 1-eps/2, 1+eps, 2-eps, +-MAX, +-inf, NaN (thorough: also k/1000, k/1023, 1+k/7, -k/11), plus a 10^4 product mixing ordinary, HDR, negative and special values in all four positions: every result channel must be the correctly rounded 1 - c (one IEEE subtraction in the type, bit for bit; NaN for NaN), alpha the same datum bit for bit, the second inversion again the correctly rounded complement of the first, and for moderate inputs the twice-inverted value within (ulp(1-c)+ulp(result))/2 of the input (derived bound; exact involution is asserted in the dyadic section above). average_rgb: the cube of 24-bit-significand values k/255 (step 5; thorough step 2), decimal fractions, HDR and negative values, 2 alphas: |got - (r+g+b)/3| <= (4u + 2^-51)(|r|+|g|+|b|)/3 with the exact sum formed in f64 and proved exact by TwoSum; non-trivial: inverted: all; average: not r == g == b",
+        true, false, |s| { s.require_classes(&["type:f32", "type:f64", "float-general", "float-special", "float-mixed-product", "float-sum-exact-in-type", "float-sum-rounded-in-type", "float-negative-channel", "float-above-full"]);
+            colour_inverted_float::<f32>(s); colour_inverted_float::<f64>(s); colour_average_float::<f32>(s); colour_average_float::<f64>(s); });
+    if rep.thorough() {
+        rep.section("colour: average_rgb on u8, all 2^24 channel triples (thorough only)",
+            "every (r,g,b) in u8^3, Rgb and Rgba (alpha = 255 - b): triples with r+g or r+g+b above 255 are counted and not called (the addition overflows: outside the property); all others must give (r+g+b)/3 truncated, computed in u32; decides average_rgb on u8 completely; non-trivial: not r == g == b",
+            true, false, |s| { s.require_classes(&["u8-exhaustive: sum-representable", "u8-exhaustive: sum-not-representable (not called)"]); colour_average_u8_exhaustive(s); });
+    }
+    rep.section("parametricity premise: bounded functions on observable elements (free term algebra)",
+        "every anchored function whose bound on T is Zero, One or ColorComponent (so that it could test is_zero() or add / multiply elements, which a run on pairwise distinct opaque symbols cannot see): the zero-padding From impls, Vec2::with_w, new/from_point, new/from_direction and their _2d forms (from_* through Vec2, Vec3 and Vec4 arguments), From<Rgb> for Rgba, new_opaque/new_transparent/from_opaque/from_transparent, gray/grey, and the growing Mat2->Mat3, Mat2->Mat4, Mat3->Mat4 conversions in both layouts, run on the free term algebra for EVERY assignment of each element position to {its own generator, the constant 0, the constant 1, the constant 255 = full()} (4^n cases, n <= 4; matrices 4^4, Mat3->Mat4 3^9 without 255, thorough 4^9): the result must be the plain routing (compared modulo the neutral-element laws x+0 = x, 1*x = x, 0*x = 0, so that only a semantic difference counts); inverted_rgb and average_rgb are checked structurally on the same inputs: channels literally full() - c with alpha untouched, and (r+g+b)/3 as a sum of exactly the three channels (any association) divided by the constant 3; non-trivial: some position holds a constant",
+        true, true, sec_observable);
+    rep.section("generic Into<..> argument forms of the colour and homogeneous constructors (Sym routing)",
+        "from_opaque / from_transparent / from_translucent called with a Vec3, an Rgba (its alpha is dropped and then replaced), a tuple, an array and a scalar (broadcast); Vec4::from_point / from_direction with Extent3, Rgb, Uvw, tuple, array, (Vec2, T) and scalar arguments; Vec3::from_point_2d / from_direction_2d with Extent2, tuple, array and scalar arguments; distinct opaque symbols, every result position compared; non-trivial: all",
+        true, true, sec_into_forms);
+    rep.section("conversion chains, round trips and setter / swizzle sequences (Sym routing)",
+        "call sequences on distinct opaque symbols: growing chains Vec2->Vec3->Vec4 (zero and scalar padding, with_z.with_w), shrink-after-grow == identity, grow-after-shrink == truncate-then-pad, kind round trips Vec<->Extent, Vec3<->Rgb, Vec3<->Uvw, Vec4<->Rgba in both orders, chains across three kinds, sequences of with_* setters and swizzles acting on the result of the previous call (a repeated setter overwrites, wxyz four times is the identity), ARGB/BGRA/BGR reorderings composed; matrices in both layouts: Mat4::from(Mat3::from(m2)) == Mat4::from(m2) == block + identity, Mat2::from(Mat3::from(m4)) == Mat2::from(m4), shrink-after-grow == identity for (2,3),(2,4),(3,4), grow-after-shrink == upper-left block + identity; non-trivial: all",
+        true, true, sec_chains);
+    rep.section("shuffle call sequences, Vec4 and Rgba (Sym routing)",
+        "for Vec4 and Rgba on 8 distinct symbols, all 256 x 256 ordered pairs of masks (first given as a tuple, second as an array / a ShuffleMask4): v.shuffled(p).shuffled(q) == (v[p[q[i]]])_i and shuffle_lo_hi(lo.shuffled(p), hi.shuffled(p), q) == (lo[p[q0]], lo[p[q1]], hi[p[q2]], hi[p[q3]]); the eight fixed helpers applied to already shuffled operands and, for the two-operand ones, with the operands swapped; non-trivial: not both masks (0,1,2,3)",
+        true, true, sec_shuffle_seq);
+    rep.section("unit vectors and deprecated direction names on machine element types",
+        "the same 40 nullary constructors as above, instantiated at i8, i16, i32, i64, f32 and f64 and compared with the doc-comment coordinates converted from i8 (for floats -0.0 == 0.0 is accepted: the property fixes values, not the sign of zero); non-trivial: all",
+        true, true, |s| { s.require_classes(&["type:i8", "type:i16", "type:i32", "type:i64", "type:f32", "type:f64"]);
+            units_concrete::<i8>(s, "i8"); units_concrete::<i16>(s, "i16"); units_concrete::<i32>(s, "i32"); units_concrete::<i64>(s, "i64"); units_concrete::<f32>(s, "f32"); units_concrete::<f64>(s, "f64"); });
     std::process::exit(rep.finish());
 }
